@@ -53,8 +53,8 @@ stale entries, and in general whenever it answers no -/
 theorem exists_of_edge {q : Quirks} {st : St σ} (hI : Inv q st) (f : Fld) (ws wt : W)
     (hs : ws ∈ st.g.nodes) (ht : wt ∈ st.g.nodes) (hls : st.h.isLive ws.obj = true)
     (hlt : st.h.isLive wt.obj = true) :
-    (RelSt.exists_ ⟨st.h.fields, st.abs.edges⟩ f ws.toR wt.toR = true ↔ edgeExists st.g f ws wt = true) := by
-  simp only [RelSt.exists_, edgeExists, abs_def, List.any_eq_true, List.mem_map, List.mem_filter,
+    (st.abs.exists_ f ws.toR wt.toR = true ↔ edgeExists st.g f ws wt = true) := by
+  simp only [Spec.exists_, edgeExists, abs_def, List.any_eq_true, List.mem_map, List.mem_filter,
     Bool.and_eq_true, beq_iff_eq]
   constructor
   · rintro ⟨e', ⟨e, ⟨he, _⟩, rfl⟩, ⟨hf, hsrc⟩, htgt⟩
@@ -83,325 +83,6 @@ theorem relationExists_imp_edgeExists {q : Quirks} {st : St σ} (hI : Inv q st) 
   simp only [edgeExists, List.any_eq_true, Bool.and_eq_true, beq_iff_eq]
   exact ⟨e, he, ⟨heq.1.symm, h1.symm⟩, h2.symm⟩
 
-
-/-- the part of a state the inference works on, at the level of objects -/
-def St.rel (st : St σ) : RelSt := ⟨st.h.fields, st.abs.edges⟩
-
-theorem Frame.isLive {st st' : St σ} (h : Frame st st') : st'.h.isLive = st.h.isLive := by
-  funext o; simp [Heap.isLive, h.live]
-
-theorem Frame.liveE {st st' : St σ} (h : Frame st st') : liveE st'.h = liveE st.h := by
-  funext e; simp [SG.liveE, h.isLive]
-
-/-- folding a guarded step of the model against the unguarded step of the specification over the kept items -/
-theorem foldl_sim {α β : Type} {q : Quirks} (P : St σ → Prop) (Q : α → Prop) (fm : St σ → α → St σ)
-    (fs : RelSt → β → RelSt) (g : α → Bool) (t : α → β)
-    (hlive : ∀ s x, P s → Q x → g x = true →
-      P (fm s x) ∧ (OK q (fm s x) → OK q s ∧ (fm s x).rel = fs s.rel (t x)))
-    (hdead : ∀ s x, P s → Q x → g x = false → P (fm s x) ∧ (OK q (fm s x) → OK q s ∧ (fm s x).rel = s.rel)) :
-    ∀ (l : List α) (s : St σ), P s → (∀ x ∈ l, Q x) → OK q (l.foldl fm s) →
-      OK q s ∧ (l.foldl fm s).rel = ((l.filter g).map t).foldl fs s.rel
-  | [], s, _, _, hok => ⟨hok, rfl⟩
-  | x :: l, s, hP, hQ, hok => by
-    simp only [List.foldl_cons] at hok ⊢
-    have hx := hQ x List.mem_cons_self
-    cases hg : g x with
-    | true =>
-      have h1 := hlive s x hP hx hg
-      have ih := foldl_sim P Q fm fs g t hlive hdead l (fm s x) h1.1 (fun y hy => hQ y (List.mem_cons_of_mem _ hy)) hok
-      have h2 := h1.2 ih.1
-      refine ⟨h2.1, ?_⟩
-      rw [ih.2, h2.2]
-      simp [hg]
-    | false =>
-      have h1 := hdead s x hP hx hg
-      have ih := foldl_sim P Q fm fs g t hlive hdead l (fm s x) h1.1 (fun y hy => hQ y (List.mem_cons_of_mem _ hy)) hok
-      have h2 := h1.2 ih.1
-      refine ⟨h2.1, ?_⟩
-      rw [ih.2, h2.2]
-      simp [hg]
-
-/-- `rec` (the model's `add_to_graph` of an inferred relation) is simulated by `srec` on states that keep `st0` -/
-def SimRec (q : Quirks) (st0 : St σ) (rec : St σ → Fld → W → W → St σ) (srec : RelSt → Fld → R → R → RelSt) : Prop :=
-  ∀ s f ws wt, Keeps q st0 s → ws ∈ st0.g.nodes → wt ∈ st0.g.nodes →
-    st0.h.isLive ws.obj = true → st0.h.isLive wt.obj = true →
-    OK q (rec s f ws wt) → OK q s ∧ (rec s f ws wt).rel = srec s.rel f ws.toR wt.toR
-
-theorem sim_inferSupers {q : Quirks} {S : Schema} {st0 : St σ} {rec srec} (hrec : RecOK q st0 rec)
-    (hsim : SimRec q st0 rec srec) (s : St σ) (f : Fld) (ws wt : W) (hk : Keeps q st0 s)
-    (hs : ws ∈ st0.g.nodes) (ht : wt ∈ st0.g.nodes) (hls : st0.h.isLive ws.obj = true)
-    (hlt : st0.h.isLive wt.obj = true) (hok : OK q (inferSupers S rec s f ws wt)) :
-    OK q s ∧ (inferSupers S rec s f ws wt).rel = RelSt.inferSupers S srec s.rel f ws.toR wt.toR := by
-  unfold inferSupers RelSt.inferSupers at *
-  have := foldl_sim (q := q) (Keeps q st0) (fun _ => True) (fun s f' => rec s f' ws wt)
-    (fun s f' => srec s f' ws.toR wt.toR) (fun _ => true) id
-    (fun s x hP _ _ => ⟨hrec s x ws wt hP hs ht, fun hok => hsim s x ws wt hP hs ht hls hlt hok⟩)
-    (fun s x _ _ hg => by simp at hg)
-    (S.supers f ws.cls) s hk (fun _ _ => trivial) hok
-  simpa [W.toR] using this
-
-theorem sim_inferInverse {q : Quirks} {S : Schema} {st0 : St σ} {rec srec}
-    (hsim : SimRec q st0 rec srec) (s : St σ) (f : Fld) (ws wt : W) (hk : Keeps q st0 s)
-    (hs : ws ∈ st0.g.nodes) (ht : wt ∈ st0.g.nodes) (hls : st0.h.isLive ws.obj = true)
-    (hlt : st0.h.isLive wt.obj = true) (hok : OK q (inferInverse S rec s f ws wt)) :
-    OK q s ∧ (inferInverse S rec s f ws wt).rel = RelSt.inferInverse S srec s.rel f ws.toR wt.toR := by
-  unfold inferInverse RelSt.inferInverse at *
-  have : (wt.toR).cls = wt.cls := rfl
-  rw [this]
-  cases hi : S.inverse f wt.cls with
-  | some f' =>
-    simp only [hi] at hok ⊢
-    exact hsim _ _ _ _ hk ht hs hlt hls hok
-  | none =>
-    simp only [hi] at hok ⊢
-    exact ⟨hok, trivial⟩
-
-theorem deadEnd_sim {q : Quirks} (s : St σ) (f : Fld) (ws wt : W) (hok : OK q (deadEnd q s f ws wt)) :
-    OK q s ∧ (deadEnd q s f ws wt).rel = s.rel := by
-  unfold deadEnd at *
-  split at hok
-  · rename_i hq
-    rcases hok.2 with h | h
-    · rw [hq] at h; cases h
-    · cases h
-  · rename_i hq
-    simp only [hq]
-    exact ⟨⟨hok.1, Or.inl (by simpa using hq)⟩, rfl⟩
-
-
-theorem rel_edges (s : St σ) : s.rel.edges = (s.g.edges.filter (liveE s.h)).map Edge.toA := rfl
-
-/-- the out-edges of `wt` that the model enumerates and keeps are the out-edges of its object in the
-specification, in the same order -/
-theorem outs_eq {q : Quirks} {S : Schema} {s : St σ} (hI : Inv q s) (f : Fld) (wt : W) (ht : wt ∈ s.g.nodes)
-    (hlt : s.h.isLive wt.obj = true) :
-    (s.rel.edges.filter (fun e => e.src == wt.toR && S.desc e.fld == S.desc f)).reverse =
-    (((s.g.edges.filter (fun e => e.src.idx == wt.idx && S.desc e.fld == S.desc f)).reverse).filter
-      (fun e => s.h.isLive e.tgt.obj)).map Edge.toA := by
-  rw [rel_edges, List.filter_map, ← List.map_reverse, List.filter_filter, ← List.filter_reverse]
-  conv => rhs; rw [← List.filter_reverse, List.filter_filter]
-  congr 1
-  apply List.filter_congr
-  intro e he
-  rw [List.mem_reverse] at he
-  have hn := hI.edgeNodes e he
-  have h1 : (e.toA.src == wt.toR) = (e.src.idx == wt.idx) := by
-    rw [Bool.eq_iff_iff]; simp only [beq_iff_eq]
-    show e.src.toR = wt.toR ↔ _
-    rw [toR_inj hI hn.1 ht]
-    constructor
-    · rintro h; rw [h]
-    · exact hI.idxInj _ hn.1 _ ht
-  simp only [Function.comp, liveE]
-  have h2 : e.toA.fld = e.fld := rfl
-  rw [h1, h2]
-  by_cases hc : e.src.idx = wt.idx
-  · have := hI.idxInj _ hn.1 _ ht hc
-    rw [this, hlt]; simp [Bool.and_comm]
-  · have hb : (e.src.idx == wt.idx) = false := by simpa using hc
-    rw [hb]; simp
-
-theorem ins_eq {q : Quirks} {S : Schema} {s : St σ} (hI : Inv q s) (f : Fld) (ws : W) (hs : ws ∈ s.g.nodes)
-    (hls : s.h.isLive ws.obj = true) :
-    (s.rel.edges.filter (fun e => e.tgt == ws.toR && S.desc e.fld == S.desc f)).reverse =
-    (((s.g.edges.filter (fun e => e.tgt.idx == ws.idx && S.desc e.fld == S.desc f)).reverse).filter
-      (fun e => s.h.isLive e.src.obj)).map Edge.toA := by
-  rw [rel_edges, List.filter_map, ← List.map_reverse, List.filter_filter, ← List.filter_reverse]
-  conv => rhs; rw [← List.filter_reverse, List.filter_filter]
-  congr 1
-  apply List.filter_congr
-  intro e he
-  rw [List.mem_reverse] at he
-  have hn := hI.edgeNodes e he
-  have h1 : (e.toA.tgt == ws.toR) = (e.tgt.idx == ws.idx) := by
-    rw [Bool.eq_iff_iff]; simp only [beq_iff_eq]
-    show e.tgt.toR = ws.toR ↔ _
-    rw [toR_inj hI hn.2 hs]
-    constructor
-    · rintro h; rw [h]
-    · exact hI.idxInj _ hn.2 _ hs
-  simp only [Function.comp, liveE]
-  have h2 : e.toA.fld = e.fld := rfl
-  rw [h1, h2]
-  by_cases hc : e.tgt.idx = ws.idx
-  · have := hI.idxInj _ hn.2 _ hs hc
-    rw [this, hls]; simp [Bool.and_comm]
-  · have hb : (e.tgt.idx == ws.idx) = false := by simpa using hc
-    rw [hb]; simp
-
-theorem sim_inferOut {q : Quirks} {S : Schema} {st0 : St σ} {rec srec} (hrec : RecOK q st0 rec)
-    (hsim : SimRec q st0 rec srec) (s : St σ) (f : Fld) (ws wt : W) (hk : Keeps q st0 s)
-    (hs : ws ∈ st0.g.nodes) (ht : wt ∈ st0.g.nodes) (hls : st0.h.isLive ws.obj = true)
-    (hlt : st0.h.isLive wt.obj = true) (hok : OK q (inferOut q S rec s f ws wt)) :
-    OK q s ∧ (inferOut q S rec s f ws wt).rel = RelSt.inferOut S srec s.rel f ws.toR wt.toR := by
-  unfold inferOut RelSt.inferOut at *
-  rw [outs_eq hk.1 f wt (hk.2.nodes ▸ ht) (by rw [hk.2.isLive]; exact hlt)]
-  have := foldl_sim (q := q) (Keeps q st0) (fun e : Edge => e.tgt ∈ st0.g.nodes)
-    (fun s e => if s.h.isLive e.tgt.obj then rec s e.fld ws e.tgt else deadEnd q s e.fld ws e.tgt)
-    (fun s (e : AEdge) => srec s e.fld ws.toR e.tgt) (fun e => st0.h.isLive e.tgt.obj) Edge.toA
-    (by
-      intro s' e hP he hg
-      have hl : s'.h.isLive e.tgt.obj = true := by rw [hP.2.isLive]; exact hg
-      simp only [hl, if_true]
-      exact ⟨hrec _ _ _ _ hP hs he, fun hok => hsim _ _ _ _ hP hs he hls hg hok⟩)
-    (by
-      intro s' e hP _ hg
-      have hl : s'.h.isLive e.tgt.obj = false := by rw [hP.2.isLive]; exact hg
-      simp only [hl]
-      exact ⟨keeps_deadEnd _ _ _ _ hP, fun hok => deadEnd_sim _ _ _ _ hok⟩)
-    ((s.g.edges.filter (fun e => e.src.idx == wt.idx && S.desc e.fld == S.desc f)).reverse) s hk
-    (by
-      intro e he
-      have := (hk.1.edgeNodes e (List.mem_filter.1 (List.mem_reverse.1 he)).1).2
-      rwa [hk.2.nodes] at this)
-    hok
-  rw [hk.2.isLive]
-  exact this
-
-theorem sim_inferIn {q : Quirks} {S : Schema} {st0 : St σ} {rec srec} (hrec : RecOK q st0 rec)
-    (hsim : SimRec q st0 rec srec) (s : St σ) (f : Fld) (ws wt : W) (hk : Keeps q st0 s)
-    (hs : ws ∈ st0.g.nodes) (ht : wt ∈ st0.g.nodes) (hls : st0.h.isLive ws.obj = true)
-    (hlt : st0.h.isLive wt.obj = true) (hok : OK q (inferIn q S rec s f ws wt)) :
-    OK q s ∧ (inferIn q S rec s f ws wt).rel = RelSt.inferIn S srec s.rel f ws.toR wt.toR := by
-  unfold inferIn RelSt.inferIn at *
-  rw [ins_eq hk.1 f ws (hk.2.nodes ▸ hs) (by rw [hk.2.isLive]; exact hls)]
-  have := foldl_sim (q := q) (Keeps q st0) (fun e : Edge => e.src ∈ st0.g.nodes)
-    (fun s e => if s.h.isLive e.src.obj then rec s e.fld e.src wt else deadEnd q s e.fld e.src wt)
-    (fun s (e : AEdge) => srec s e.fld e.src wt.toR) (fun e => st0.h.isLive e.src.obj) Edge.toA
-    (by
-      intro s' e hP he hg
-      have hl : s'.h.isLive e.src.obj = true := by rw [hP.2.isLive]; exact hg
-      simp only [hl, if_true]
-      exact ⟨hrec _ _ _ _ hP he ht, fun hok => hsim _ _ _ _ hP he ht hg hlt hok⟩)
-    (by
-      intro s' e hP _ hg
-      have hl : s'.h.isLive e.src.obj = false := by rw [hP.2.isLive]; exact hg
-      simp only [hl]
-      exact ⟨keeps_deadEnd _ _ _ _ hP, fun hok => deadEnd_sim _ _ _ _ hok⟩)
-    ((s.g.edges.filter (fun e => e.tgt.idx == ws.idx && S.desc e.fld == S.desc f)).reverse) s hk
-    (by
-      intro e he
-      have := (hk.1.edgeNodes e (List.mem_filter.1 (List.mem_reverse.1 he)).1).1
-      rwa [hk.2.nodes] at this)
-    hok
-  rw [hk.2.isLive]
-  exact this
-
-theorem sim_inferTransitive {q : Quirks} {S : Schema} {st0 : St σ} {rec srec} (hrec : RecOK q st0 rec)
-    (hsim : SimRec q st0 rec srec) (s : St σ) (f : Fld) (ws wt : W) (hk : Keeps q st0 s)
-    (hs : ws ∈ st0.g.nodes) (ht : wt ∈ st0.g.nodes) (hls : st0.h.isLive ws.obj = true)
-    (hlt : st0.h.isLive wt.obj = true) (hok : OK q (inferTransitive q S rec s f ws wt)) :
-    OK q s ∧ (inferTransitive q S rec s f ws wt).rel = RelSt.inferTransitive S srec s.rel f ws.toR wt.toR := by
-  unfold inferTransitive RelSt.inferTransitive at *
-  split
-  · rename_i htr
-    simp only [htr, if_true] at hok
-    have k1 := keeps_inferOut (S := S) hrec s f ws wt hk hs
-    have h2 := sim_inferIn hrec hsim _ f ws wt k1 hs ht hls hlt hok
-    have h1 := sim_inferOut hrec hsim s f ws wt hk hs ht hls hlt h2.1
-    exact ⟨h1.1, by rw [h2.2, h1.2]⟩
-  · rename_i htr
-    simp only [htr] at hok
-    exact ⟨hok, rfl⟩
-
-
-theorem sim_record {S : Schema} (st : St σ) (f : Fld) (ws wt : W) (inf : Bool)
-    (hls : st.h.isLive ws.obj = true) (hlt : st.h.isLive wt.obj = true) :
-    (record S st f ws wt inf).rel = RelSt.record S st.rel f ws.toR wt.toR inf := by
-  have hl : liveE st.h ⟨f, ws, wt, inf⟩ = true := by simp [liveE, hls, hlt]
-  unfold record RelSt.record St.rel
-  cases inf with
-  | true =>
-    have h2 : liveE (st.h.updateValue S f ws.obj wt.obj) = liveE st.h := by
-      funext e; simp [liveE, Heap.isLive, Heap.updateValue]
-    simp only [if_true, abs_def, addEdge, h2, List.filter_append, List.map_append]
-    simp [hl, Edge.toA, Heap.updateValue, W.toR]
-  | false =>
-    simp only [abs_def, addEdge]
-    simp [hl, Edge.toA]
-
-/-- **the simulation**: `add_to_graph` of the model and the object-level inference do the same thing, step by
-step, as long as nothing stale or dead is hit -/
-theorem sim_addFact {q : Quirks} (S : Schema) : ∀ (fuel : Nat) (st : St σ) (f : Fld) (ws wt : W) (inf : Bool),
-    Inv q st → ws ∈ st.g.nodes → wt ∈ st.g.nodes → st.h.isLive ws.obj = true → st.h.isLive wt.obj = true →
-    OK q (SG.addFact q S fuel st f ws wt inf) →
-    OK q st ∧ (SG.addFact q S fuel st f ws wt inf).rel = specAddFact S fuel st.rel f ws.toR wt.toR inf
-  | 0, st, f, ws, wt, inf, _, _, _, _, _, hok => ⟨hok, rfl⟩
-  | fuel + 1, st, f, ws, wt, inf, hI, hs, ht, hls, hlt, hok => by
-    unfold SG.addFact at hok ⊢
-    unfold specAddFact
-    by_cases herr : st.err = true
-    · simp only [herr, if_true] at hok
-      have := hI.not_err_of_OK hok
-      rw [herr] at this; cases this
-    have herr' : st.err = false := by simpa using herr
-    simp only [herr', Bool.false_eq_true, if_false] at hok ⊢
-    have hex := exists_of_edge hI f ws wt hs ht hls hlt
-    by_cases hre : relationExists st.g f ws wt = true
-    · -- already known
-      simp only [hre, if_true] at hok ⊢
-      have hedge : edgeExists st.g f ws wt = true := by
-        rcases hok.1 with hq | hq
-        · exact relationExists_imp_edgeExists hI hq f ws wt hs ht hre
-        · simp only [known, Bool.or_eq_false_iff, Bool.not_eq_eq_eq_not, Bool.not_false] at hq
-          exact hq.2
-      have : RelSt.exists_ st.rel f ws.toR wt.toR = true := hex.2 hedge
-      rw [this]
-      refine ⟨⟨?_, hok.2⟩, rfl⟩
-      rcases hok.1 with hq | hq
-      · exact Or.inl hq
-      · simp only [known, Bool.or_eq_false_iff] at hq
-        exact Or.inr hq.1
-    · -- a new relation
-      simp only [hre] at hok ⊢
-      have hne : RelSt.exists_ st.rel f ws.toR wt.toR = false := by
-        cases hx : RelSt.exists_ st.rel f ws.toR wt.toR with
-        | false => rfl
-        | true => exact absurd (edgeExists_imp_relationExists hI f ws wt (hex.1 hx)) hre
-      rw [hne]
-      simp only [Bool.false_eq_true, if_false]
-      have hrecOK : RecOK q st (fun st f ws wt => SG.addFact q S fuel st f ws wt true) := by
-        intro s f' a b hk ha hb
-        have := Inv.addFact S fuel s f' a b true hk.1 (hk.2.nodes ▸ ha) (hk.2.nodes ▸ hb)
-        exact ⟨this.1, hk.2.trans this.2⟩
-      have hsim : SimRec q st (fun st f ws wt => SG.addFact q S fuel st f ws wt true)
-          (fun s f a b => specAddFact S fuel s f a b true) := by
-        intro s f' a b hk ha hb hla hlb hok'
-        exact sim_addFact S fuel s f' a b true hk.1 (hk.2.nodes ▸ ha) (hk.2.nodes ▸ hb)
-          (by rw [hk.2.isLive]; exact hla) (by rw [hk.2.isLive]; exact hlb) hok'
-      have k0 := keeps_record (S := S) hI f ws wt inf hs ht
-      have k1 := keeps_inferSupers (S := S) hrecOK _ f ws wt k0 hs ht
-      have k2 := keeps_inferInverse (S := S) hrecOK _ f ws wt k1 hs ht
-      have h3 := sim_inferTransitive hrecOK hsim _ f ws wt k2 hs ht hls hlt hok
-      have h2 := sim_inferInverse hsim _ f ws wt k1 hs ht hls hlt h3.1
-      have h1 := sim_inferSupers hrecOK hsim _ f ws wt k0 hs ht hls hlt h2.1
-      refine ⟨?_, by rw [h3.2, h2.2, h1.2, sim_record st f ws wt inf hls hlt]⟩
-      -- `record` does not touch the flags
-      have : OK q (record S st f ws wt inf) → OK q st := by
-        unfold record OK; split <;> exact id
-      exact this h1.1
-
-
-/-! ### every operation commutes with `abs` -/
-
-theorem abs_addFact {q : Quirks} (S : Schema) (st : St σ) (f : Fld) (ws wt : W) (hI : Inv q st)
-    (hs : ws ∈ st.g.nodes) (ht : wt ∈ st.g.nodes) (hls : st.h.isLive ws.obj = true)
-    (hlt : st.h.isLive wt.obj = true) (hok : OK q (SG.addFact q S S.fuel st f ws wt false)) :
-    OK q st ∧ (SG.addFact q S S.fuel st f ws wt false).abs = st.abs.assert S f ws.toR wt.toR := by
-  have h1 := sim_addFact S S.fuel st f ws wt false hI hs ht hls hlt hok
-  have k := Inv.addFact S S.fuel st f ws wt false hI hs ht
-  refine ⟨h1.1, ?_⟩
-  have hrel := h1.2
-  generalize SG.addFact q S S.fuel st f ws wt false = st' at *
-  have hh : st'.h = { st.h with fields := st'.h.fields } := k.2.heap
-  have hl : liveW st'.h = liveW st.h := by funext w; simp [liveW, k.2.isLive]
-  unfold Spec.assert
-  have e1 : (⟨st.abs.h.fields, st.abs.edges⟩ : RelSt) = st.rel := rfl
-  rw [e1, ← hrel]
-  simp only [abs_def, hl, k.2.nodes]
-  show _ = ({ h := { st.h with fields := st'.h.fields }, reg := _, edges := _ } : Spec)
-  rw [← hh]
-  rfl
 
 theorem foldl_removeNode_nodes_eq (q : Quirks) (a : Alloc σ) : ∀ (l : List W) (g : SG σ), g.nodes.Nodup →
     (l.foldl (SG.removeNode q a) g).nodes = g.nodes.filter (fun w => !l.contains w)
@@ -582,9 +263,6 @@ theorem census_eq {q : Quirks} {S : Schema} {a : Alloc σ} {st : St σ} (hI : In
   rw [List.filter_map, List.map_map]
   rfl
 
-theorem spec_exists_eq (s : Spec) (f : Fld) (a b : R) :
-    s.exists_ f a b = RelSt.exists_ ⟨s.h.fields, s.edges⟩ f a b := rfl
-
 theorem OK_flags {q : Quirks} (st : St σ) (h' : Heap) (g' : SG σ) :
     OK q ({ st with h := h', g := g' } : St σ) ↔ OK q st := Iff.rfl
 
@@ -620,20 +298,390 @@ theorem rel_core {q : Quirks} {st : St σ} (hI : Inv q st) (f : Fld) (ws wt : W)
       (if st.abs.exists_ f ws.toR wt.toR then st.abs
        else { st.abs with edges := st.abs.edges ++ [⟨f, ws.toR, wt.toR, false⟩] }) := by
   have hex := exists_of_edge hI f ws wt hs ht hls hlt
-  rw [spec_exists_eq]
   by_cases hre : relationExists st.g f ws wt = true
   · simp only [hre, if_true] at hok ⊢
     have k := known_OK hI f ws wt hs ht hre hok
-    have hx : RelSt.exists_ ⟨st.abs.h.fields, st.abs.edges⟩ f ws.toR wt.toR = true := hex.2 k.2
+    have hx : st.abs.exists_ f ws.toR wt.toR = true := hex.2 k.2
     rw [hx]
     exact ⟨k.1, rfl⟩
   · simp only [hre] at hok ⊢
-    have hne : RelSt.exists_ ⟨st.abs.h.fields, st.abs.edges⟩ f ws.toR wt.toR = false := by
-      cases hx : RelSt.exists_ ⟨st.abs.h.fields, st.abs.edges⟩ f ws.toR wt.toR with
+    have hne : st.abs.exists_ f ws.toR wt.toR = false := by
+      cases hx : st.abs.exists_ f ws.toR wt.toR with
       | false => rfl
       | true => exact absurd (edgeExists_imp_relationExists hI f ws wt (hex.1 hx)) hre
     rw [hne]
     exact ⟨hok, abs_addEdge st f ws wt false hls hlt⟩
+
+theorem Frame.isLive {st st' : St σ} (h : Frame st st') : st'.h.isLive = st.h.isLive := by
+  funext o; simp [Heap.isLive, h.live]
+
+/-- folding a guarded step of the model against the unguarded step of the specification over the kept items -/
+theorem foldl_sim {α β : Type} {q : Quirks} (P : St σ → Prop) (Q : α → Prop) (fm : St σ → α → St σ)
+    (fs : Spec → β → Spec) (g : α → Bool) (t : α → β)
+    (hlive : ∀ s x, P s → Q x → g x = true →
+      P (fm s x) ∧ (OK q (fm s x) → OK q s ∧ (fm s x).abs = fs s.abs (t x)))
+    (hdead : ∀ s x, P s → Q x → g x = false → P (fm s x) ∧ (OK q (fm s x) → OK q s ∧ (fm s x).abs = s.abs)) :
+    ∀ (l : List α) (s : St σ), P s → (∀ x ∈ l, Q x) → OK q (l.foldl fm s) →
+      OK q s ∧ (l.foldl fm s).abs = ((l.filter g).map t).foldl fs s.abs
+  | [], s, _, _, hok => ⟨hok, rfl⟩
+  | x :: l, s, hP, hQ, hok => by
+    simp only [List.foldl_cons] at hok ⊢
+    have hx := hQ x List.mem_cons_self
+    cases hg : g x with
+    | true =>
+      have h1 := hlive s x hP hx hg
+      have ih := foldl_sim P Q fm fs g t hlive hdead l (fm s x) h1.1 (fun y hy => hQ y (List.mem_cons_of_mem _ hy)) hok
+      have h2 := h1.2 ih.1
+      refine ⟨h2.1, ?_⟩
+      rw [ih.2, h2.2]
+      simp [hg]
+    | false =>
+      have h1 := hdead s x hP hx hg
+      have ih := foldl_sim P Q fm fs g t hlive hdead l (fm s x) h1.1 (fun y hy => hQ y (List.mem_cons_of_mem _ hy)) hok
+      have h2 := h1.2 ih.1
+      refine ⟨h2.1, ?_⟩
+      rw [ih.2, h2.2]
+      simp [hg]
+
+/-- `rec` (the model's `add_to_graph` of an inferred relation) is simulated by `srec` -/
+def SimRec (q : Quirks) (rec : St σ → Fld → W → W → St σ) (srec : Spec → Fld → R → R → Spec) : Prop :=
+  ∀ s f ws wt, Inv q s → ws ∈ s.g.nodes → wt ∈ s.g.nodes →
+    s.h.isLive ws.obj = true → s.h.isLive wt.obj = true →
+    OK q (rec s f ws wt) → OK q s ∧ (rec s f ws wt).abs = srec s.abs f ws.toR wt.toR
+
+/-- a fold of `rec` over field names with fixed ends -/
+theorem sim_foldFields {q : Quirks} {rec srec} (hrec : RecOK q rec) (hsim : SimRec q rec srec)
+    (s : St σ) (fs : List Fld) (ws wt : W) (hI : Inv q s) (hs : ws ∈ s.g.nodes) (ht : wt ∈ s.g.nodes)
+    (hls : s.h.isLive ws.obj = true) (hlt : s.h.isLive wt.obj = true)
+    (hok : OK q (fs.foldl (fun st f' => rec st f' ws wt) s)) :
+    OK q s ∧ (fs.foldl (fun st f' => rec st f' ws wt) s).abs = fs.foldl (fun s f' => srec s f' ws.toR wt.toR) s.abs := by
+  have := foldl_sim (q := q) (Keeps q s) (fun _ => True) (fun s f' => rec s f' ws wt)
+    (fun s f' => srec s f' ws.toR wt.toR) (fun _ => true) id
+    (fun s' x hP _ _ => ⟨hP.trans (hrec s' x ws wt hP.1 (hP.2.nodes _ hs) (hP.2.nodes _ ht)),
+      fun hok => hsim s' x ws wt hP.1 (hP.2.nodes _ hs) (hP.2.nodes _ ht) (by rw [hP.2.isLive]; exact hls)
+        (by rw [hP.2.isLive]; exact hlt) hok⟩)
+    (fun s x _ _ hg => by simp at hg)
+    fs s (Keeps.refl hI) (fun _ _ => trivial) hok
+  simpa using this
+
+theorem takerOf_abs (S : Schema) (s : St σ) (w : W) :
+    s.abs.h.takerOf S w.toR.obj w.toR.cls = s.h.takerOf S w.obj w.cls := rfl
+
+theorem sim_inferTakerSupers {q : Quirks} {S : Schema} {a : Alloc σ} (ha : a.Valid) {rec srec} (hrec : RecOK q rec)
+    (hsim : SimRec q rec srec) (s : St σ) (f : Fld) (ws wt : W) (hI : Inv q s) (ht : wt ∈ s.g.nodes)
+    (hlt : s.h.isLive wt.obj = true) (hok : OK q (inferTakerSupers S a rec s f ws wt)) :
+    OK q s ∧ (inferTakerSupers S a rec s f ws wt).abs = Spec.inferTakerSupers S srec s.abs f ws.toR wt.toR := by
+  unfold inferTakerSupers Spec.inferTakerSupers at *
+  rw [takerOf_abs]
+  have hc : (ws.toR).cls = ws.cls := rfl
+  rw [hc]
+  by_cases herr : s.err = true
+  · simp only [herr, Bool.true_or, if_true] at hok
+    have := hI.not_err_of_OK hok
+    rw [herr] at this; cases this
+  have herr' : s.err = false := by simpa using herr
+  simp only [herr', Bool.false_or] at hok ⊢
+  by_cases hemp : (S.takerSupers f ws.cls).isEmpty = true
+  · simp only [hemp, if_true] at hok ⊢
+    exact ⟨hok, trivial⟩
+  simp only [hemp, Bool.false_eq_true, if_false] at hok ⊢
+  cases hx : s.h.takerOf S ws.obj ws.cls with
+  | none => simp only [hx] at hok ⊢; exact ⟨hok, trivial⟩
+  | some x =>
+    simp only [hx] at hok ⊢
+    have hxl := takerOf_live hx
+    have e := keeps_ensureSt ha hI x hxl
+    have ae : (ensureSt a s x).1.abs = s.abs.ensure x := abs_ensure (a := a) hI x hxl
+    have hl2 : (ensureSt a s x).1.h.isLive (ensureSt a s x).2.obj = true := by
+      have : (ensureSt a s x).2.obj = x.obj := congrArg R.obj e.2.2
+      rw [this, e.1.2.isLive, isLive_iff]; exact ⟨x, hxl, rfl⟩
+    have r := sim_foldFields hrec hsim (ensureSt a s x).1 (S.takerSupers f ws.cls) (ensureSt a s x).2 wt e.1.1
+      e.2.1 (e.1.2.nodes _ ht) hl2 (by rw [e.1.2.isLive]; exact hlt) hok
+    refine ⟨r.1, ?_⟩
+    rw [r.2, ae, e.2.2]
+
+theorem sim_inferSupers {q : Quirks} {S : Schema} {a : Alloc σ} (ha : a.Valid) {rec srec} (hrec : RecOK q rec)
+    (hsim : SimRec q rec srec) (s : St σ) (f : Fld) (ws wt : W) (hI : Inv q s)
+    (hs : ws ∈ s.g.nodes) (ht : wt ∈ s.g.nodes) (hls : s.h.isLive ws.obj = true)
+    (hlt : s.h.isLive wt.obj = true) (hok : OK q (inferSupers S a rec s f ws wt)) :
+    OK q s ∧ (inferSupers S a rec s f ws wt).abs = Spec.inferSupers S srec s.abs f ws.toR wt.toR := by
+  unfold inferSupers Spec.inferSupers at *
+  have k1 : Keeps q s ((S.supers f ws.cls).foldl (fun st f' => rec st f' ws wt) s) :=
+    keeps_foldl _ _ (fun _ => True) (fun s' f' h _ => hrec s' f' ws wt h.1 (h.2.nodes _ hs) (h.2.nodes _ ht)) _ hI
+      (fun _ _ => trivial)
+  have h2 := sim_inferTakerSupers ha hrec hsim _ f ws wt k1.1 (k1.2.nodes _ ht) (by rw [k1.2.isLive]; exact hlt) hok
+  have h1 := sim_foldFields hrec hsim s (S.supers f ws.cls) ws wt hI hs ht hls hlt h2.1
+  refine ⟨h1.1, ?_⟩
+  rw [h2.2, h1.2]
+  rfl
+
+theorem sim_inferInverse {q : Quirks} {S : Schema} {a : Alloc σ} (ha : a.Valid) {rec srec}
+    (hsim : SimRec q rec srec) (s : St σ) (f : Fld) (ws wt : W) (hI : Inv q s)
+    (hs : ws ∈ s.g.nodes) (ht : wt ∈ s.g.nodes) (hls : s.h.isLive ws.obj = true)
+    (hlt : s.h.isLive wt.obj = true) (hok : OK q (inferInverse S a rec s f ws wt)) :
+    OK q s ∧ (inferInverse S a rec s f ws wt).abs = Spec.inferInverse S srec s.abs f ws.toR wt.toR := by
+  unfold inferInverse Spec.inferInverse at *
+  rw [takerOf_abs]
+  have : (wt.toR).cls = wt.cls := rfl
+  rw [this]
+  cases hi : S.inverse f wt.cls with
+  | some f' =>
+    simp only [hi] at hok ⊢
+    exact hsim _ _ _ _ hI ht hs hlt hls hok
+  | none =>
+    simp only [hi] at hok ⊢
+    cases hti : S.takerInverse f wt.cls with
+    | none => simp only [hti] at hok ⊢; exact ⟨hok, trivial⟩
+    | some f' =>
+      simp only [hti] at hok ⊢
+      by_cases herr : s.err = true
+      · simp only [herr, if_true] at hok
+        have := hI.not_err_of_OK hok
+        rw [herr] at this; cases this
+      have herr' : s.err = false := by simpa using herr
+      simp only [herr', Bool.false_eq_true, if_false] at hok ⊢
+      cases hx : s.h.takerOf S wt.obj wt.cls with
+      | none => simp only [hx] at hok ⊢; exact ⟨hok, trivial⟩
+      | some x =>
+        simp only [hx] at hok ⊢
+        have hxl := takerOf_live hx
+        have e := keeps_ensureSt ha hI x hxl
+        have ae : (ensureSt a s x).1.abs = s.abs.ensure x := abs_ensure (a := a) hI x hxl
+        have hl2 : (ensureSt a s x).1.h.isLive (ensureSt a s x).2.obj = true := by
+          have : (ensureSt a s x).2.obj = x.obj := congrArg R.obj e.2.2
+          rw [this, e.1.2.isLive, isLive_iff]; exact ⟨x, hxl, rfl⟩
+        have r := hsim (ensureSt a s x).1 f' (ensureSt a s x).2 ws e.1.1 e.2.1 (e.1.2.nodes _ hs) hl2
+          (by rw [e.1.2.isLive]; exact hls) hok
+        refine ⟨r.1, ?_⟩
+        rw [r.2, ae, e.2.2]
+
+theorem deadEnd_sim {q : Quirks} (s : St σ) (f : Fld) (ws wt : W) (hok : OK q (deadEnd q s f ws wt)) :
+    OK q s ∧ (deadEnd q s f ws wt).abs = s.abs := by
+  unfold deadEnd at *
+  split at hok
+  · rename_i hq
+    rcases hok.2 with h | h
+    · rw [hq] at h; cases h
+    · cases h
+  · rename_i hq
+    simp only [hq]
+    exact ⟨⟨hok.1, Or.inl (by simpa using hq)⟩, rfl⟩
+
+theorem abs_edges (s : St σ) : s.abs.edges = (s.g.edges.filter (liveE s.h)).map Edge.toA := rfl
+
+/-- the out-edges of `wt` that the model enumerates and keeps are the out-edges of its object in the
+specification, in the same order -/
+theorem outs_eq {q : Quirks} {S : Schema} {s : St σ} (hI : Inv q s) (f : Fld) (wt : W) (ht : wt ∈ s.g.nodes)
+    (hlt : s.h.isLive wt.obj = true) :
+    (s.abs.edges.filter (fun e => e.src == wt.toR && S.desc e.fld == S.desc f)).reverse =
+    (((s.g.edges.filter (fun e => e.src.idx == wt.idx && S.desc e.fld == S.desc f)).reverse).filter
+      (fun e => s.h.isLive e.tgt.obj)).map Edge.toA := by
+  rw [abs_edges, List.filter_map, ← List.map_reverse, List.filter_filter, ← List.filter_reverse]
+  conv => rhs; rw [← List.filter_reverse, List.filter_filter]
+  congr 1
+  apply List.filter_congr
+  intro e he
+  rw [List.mem_reverse] at he
+  have hn := hI.edgeNodes e he
+  have h1 : (e.toA.src == wt.toR) = (e.src.idx == wt.idx) := by
+    rw [Bool.eq_iff_iff]; simp only [beq_iff_eq]
+    show e.src.toR = wt.toR ↔ _
+    rw [toR_inj hI hn.1 ht]
+    constructor
+    · rintro h; rw [h]
+    · exact hI.idxInj _ hn.1 _ ht
+  simp only [Function.comp, liveE]
+  have h2 : e.toA.fld = e.fld := rfl
+  rw [h1, h2]
+  by_cases hc : e.src.idx = wt.idx
+  · have := hI.idxInj _ hn.1 _ ht hc
+    rw [this, hlt]; simp [Bool.and_comm]
+  · have hb : (e.src.idx == wt.idx) = false := by simpa using hc
+    rw [hb]; simp
+
+theorem ins_eq {q : Quirks} {S : Schema} {s : St σ} (hI : Inv q s) (f : Fld) (ws : W) (hs : ws ∈ s.g.nodes)
+    (hls : s.h.isLive ws.obj = true) :
+    (s.abs.edges.filter (fun e => e.tgt == ws.toR && S.desc e.fld == S.desc f)).reverse =
+    (((s.g.edges.filter (fun e => e.tgt.idx == ws.idx && S.desc e.fld == S.desc f)).reverse).filter
+      (fun e => s.h.isLive e.src.obj)).map Edge.toA := by
+  rw [abs_edges, List.filter_map, ← List.map_reverse, List.filter_filter, ← List.filter_reverse]
+  conv => rhs; rw [← List.filter_reverse, List.filter_filter]
+  congr 1
+  apply List.filter_congr
+  intro e he
+  rw [List.mem_reverse] at he
+  have hn := hI.edgeNodes e he
+  have h1 : (e.toA.tgt == ws.toR) = (e.tgt.idx == ws.idx) := by
+    rw [Bool.eq_iff_iff]; simp only [beq_iff_eq]
+    show e.tgt.toR = ws.toR ↔ _
+    rw [toR_inj hI hn.2 hs]
+    constructor
+    · rintro h; rw [h]
+    · exact hI.idxInj _ hn.2 _ hs
+  simp only [Function.comp, liveE]
+  have h2 : e.toA.fld = e.fld := rfl
+  rw [h1, h2]
+  by_cases hc : e.tgt.idx = ws.idx
+  · have := hI.idxInj _ hn.2 _ hs hc
+    rw [this, hls]; simp [Bool.and_comm]
+  · have hb : (e.tgt.idx == ws.idx) = false := by simpa using hc
+    rw [hb]; simp
+
+theorem sim_inferOut {q : Quirks} {S : Schema} {rec srec} (hrec : RecOK q rec)
+    (hsim : SimRec q rec srec) (s : St σ) (f : Fld) (ws wt : W) (hI : Inv q s)
+    (hs : ws ∈ s.g.nodes) (ht : wt ∈ s.g.nodes) (hls : s.h.isLive ws.obj = true)
+    (hlt : s.h.isLive wt.obj = true) (hok : OK q (inferOut q S rec s f ws wt)) :
+    OK q s ∧ (inferOut q S rec s f ws wt).abs = Spec.inferOut S srec s.abs f ws.toR wt.toR := by
+  unfold inferOut Spec.inferOut at *
+  rw [outs_eq hI f wt ht hlt]
+  exact foldl_sim (q := q) (Keeps q s) (fun e : Edge => e.tgt ∈ s.g.nodes)
+    (fun s e => if s.h.isLive e.tgt.obj then rec s e.fld ws e.tgt else deadEnd q s e.fld ws e.tgt)
+    (fun s (e : AEdge) => srec s e.fld ws.toR e.tgt) (fun e => s.h.isLive e.tgt.obj) Edge.toA
+    (by
+      intro s' e hP he hg
+      have hl : s'.h.isLive e.tgt.obj = true := by rw [hP.2.isLive]; exact hg
+      simp only [hl, if_true]
+      exact ⟨hP.trans (hrec _ _ _ _ hP.1 (hP.2.nodes _ hs) (hP.2.nodes _ he)),
+        fun hok => hsim _ _ _ _ hP.1 (hP.2.nodes _ hs) (hP.2.nodes _ he) (by rw [hP.2.isLive]; exact hls) hl hok⟩)
+    (by
+      intro s' e hP _ hg
+      have hl : s'.h.isLive e.tgt.obj = false := by rw [hP.2.isLive]; exact hg
+      simp only [hl]
+      exact ⟨hP.trans (keeps_deadEnd _ _ _ _ hP.1), fun hok => deadEnd_sim _ _ _ _ hok⟩)
+    ((s.g.edges.filter (fun e => e.src.idx == wt.idx && S.desc e.fld == S.desc f)).reverse) s (Keeps.refl hI)
+    (by
+      intro e he
+      exact (hI.edgeNodes e (List.mem_filter.1 (List.mem_reverse.1 he)).1).2)
+    hok
+
+theorem sim_inferIn {q : Quirks} {S : Schema} {rec srec} (hrec : RecOK q rec)
+    (hsim : SimRec q rec srec) (s : St σ) (f : Fld) (ws wt : W) (hI : Inv q s)
+    (hs : ws ∈ s.g.nodes) (ht : wt ∈ s.g.nodes) (hls : s.h.isLive ws.obj = true)
+    (hlt : s.h.isLive wt.obj = true) (hok : OK q (inferIn q S rec s f ws wt)) :
+    OK q s ∧ (inferIn q S rec s f ws wt).abs = Spec.inferIn S srec s.abs f ws.toR wt.toR := by
+  unfold inferIn Spec.inferIn at *
+  rw [ins_eq hI f ws hs hls]
+  exact foldl_sim (q := q) (Keeps q s) (fun e : Edge => e.src ∈ s.g.nodes)
+    (fun s e => if s.h.isLive e.src.obj then rec s e.fld e.src wt else deadEnd q s e.fld e.src wt)
+    (fun s (e : AEdge) => srec s e.fld e.src wt.toR) (fun e => s.h.isLive e.src.obj) Edge.toA
+    (by
+      intro s' e hP he hg
+      have hl : s'.h.isLive e.src.obj = true := by rw [hP.2.isLive]; exact hg
+      simp only [hl, if_true]
+      exact ⟨hP.trans (hrec _ _ _ _ hP.1 (hP.2.nodes _ he) (hP.2.nodes _ ht)),
+        fun hok => hsim _ _ _ _ hP.1 (hP.2.nodes _ he) (hP.2.nodes _ ht) hl (by rw [hP.2.isLive]; exact hlt) hok⟩)
+    (by
+      intro s' e hP _ hg
+      have hl : s'.h.isLive e.src.obj = false := by rw [hP.2.isLive]; exact hg
+      simp only [hl]
+      exact ⟨hP.trans (keeps_deadEnd _ _ _ _ hP.1), fun hok => deadEnd_sim _ _ _ _ hok⟩)
+    ((s.g.edges.filter (fun e => e.tgt.idx == ws.idx && S.desc e.fld == S.desc f)).reverse) s (Keeps.refl hI)
+    (by
+      intro e he
+      exact (hI.edgeNodes e (List.mem_filter.1 (List.mem_reverse.1 he)).1).1)
+    hok
+
+theorem sim_inferTransitive {q : Quirks} {S : Schema} {rec srec} (hrec : RecOK q rec)
+    (hsim : SimRec q rec srec) (s : St σ) (f : Fld) (ws wt : W) (hI : Inv q s)
+    (hs : ws ∈ s.g.nodes) (ht : wt ∈ s.g.nodes) (hls : s.h.isLive ws.obj = true)
+    (hlt : s.h.isLive wt.obj = true) (hok : OK q (inferTransitive q S rec s f ws wt)) :
+    OK q s ∧ (inferTransitive q S rec s f ws wt).abs = Spec.inferTransitive S srec s.abs f ws.toR wt.toR := by
+  unfold inferTransitive Spec.inferTransitive at *
+  split
+  · rename_i htr
+    simp only [htr, if_true] at hok
+    have k1 := keeps_inferOut (S := S) hrec s f ws wt hI hs
+    have h2 := sim_inferIn hrec hsim _ f ws wt k1.1 (k1.2.nodes _ hs) (k1.2.nodes _ ht)
+      (by rw [k1.2.isLive]; exact hls) (by rw [k1.2.isLive]; exact hlt) hok
+    have h1 := sim_inferOut hrec hsim s f ws wt hI hs ht hls hlt h2.1
+    exact ⟨h1.1, by rw [h2.2, h1.2]⟩
+  · rename_i htr
+    simp only [htr] at hok
+    exact ⟨hok, rfl⟩
+
+theorem sim_record {S : Schema} (st : St σ) (f : Fld) (ws wt : W) (inf : Bool)
+    (hls : st.h.isLive ws.obj = true) (hlt : st.h.isLive wt.obj = true) :
+    (record S st f ws wt inf).abs = Spec.record S st.abs f ws.toR wt.toR inf := by
+  unfold record Spec.record
+  cases inf with
+  | true =>
+    simp only [if_true]
+    show ({ ({ st with g := addEdge st.g f ws wt true } : St σ) with
+      h := st.h.updateValue S f ws.obj wt.obj } : St σ).abs = _
+    rw [abs_heap _ _ (by rfl), abs_addEdge st f ws wt true hls hlt]
+    rfl
+  | false =>
+    simp only [Bool.false_eq_true, if_false]
+    exact abs_addEdge st f ws wt false hls hlt
+
+/-- **the simulation**: `add_to_graph` of the model and the object-level inference do the same thing, step by
+step, as long as nothing stale or dead is hit -/
+theorem sim_addFact {q : Quirks} (S : Schema) {a : Alloc σ} (ha : a.Valid) :
+    ∀ (fuel : Nat) (st : St σ) (f : Fld) (ws wt : W) (inf : Bool),
+    Inv q st → ws ∈ st.g.nodes → wt ∈ st.g.nodes → st.h.isLive ws.obj = true → st.h.isLive wt.obj = true →
+    OK q (SG.addFact q S a fuel st f ws wt inf) →
+    OK q st ∧ (SG.addFact q S a fuel st f ws wt inf).abs = specAddFact S fuel st.abs f ws.toR wt.toR inf
+  | 0, st, f, ws, wt, inf, _, _, _, _, _, hok => ⟨hok, rfl⟩
+  | fuel + 1, st, f, ws, wt, inf, hI, hs, ht, hls, hlt, hok => by
+    unfold SG.addFact at hok ⊢
+    unfold specAddFact
+    by_cases herr : st.err = true
+    · simp only [herr, if_true] at hok
+      have := hI.not_err_of_OK hok
+      rw [herr] at this; cases this
+    have herr' : st.err = false := by simpa using herr
+    simp only [herr', Bool.false_eq_true, if_false] at hok ⊢
+    have hex := exists_of_edge hI f ws wt hs ht hls hlt
+    by_cases hre : relationExists st.g f ws wt = true
+    · -- already known
+      simp only [hre, if_true] at hok ⊢
+      have hedge : edgeExists st.g f ws wt = true := by
+        rcases hok.1 with hq | hq
+        · exact relationExists_imp_edgeExists hI hq f ws wt hs ht hre
+        · simp only [known, Bool.or_eq_false_iff, Bool.not_eq_eq_eq_not, Bool.not_false] at hq
+          exact hq.2
+      have : st.abs.exists_ f ws.toR wt.toR = true := hex.2 hedge
+      rw [this]
+      refine ⟨⟨?_, hok.2⟩, rfl⟩
+      rcases hok.1 with hq | hq
+      · exact Or.inl hq
+      · simp only [known, Bool.or_eq_false_iff] at hq
+        exact Or.inr hq.1
+    · -- a new relation
+      simp only [hre] at hok ⊢
+      have hne : st.abs.exists_ f ws.toR wt.toR = false := by
+        cases hx : st.abs.exists_ f ws.toR wt.toR with
+        | false => rfl
+        | true => exact absurd (edgeExists_imp_relationExists hI f ws wt (hex.1 hx)) hre
+      rw [hne]
+      simp only [Bool.false_eq_true, if_false]
+      have hrecOK : RecOK q (fun st f ws wt => SG.addFact q S a fuel st f ws wt true) :=
+        fun s f' x y hI' hx hy => Inv.addFact S ha fuel s f' x y true hI' hx hy
+      have hsim : SimRec q (fun st f ws wt => SG.addFact q S a fuel st f ws wt true)
+          (fun s f a b => specAddFact S fuel s f a b true) :=
+        fun s f' x y hI' hx hy hlx hly hok' => sim_addFact S ha fuel s f' x y true hI' hx hy hlx hly hok'
+      have k0 := keeps_record (S := S) hI f ws wt inf hs ht
+      have k1 := k0.trans (keeps_inferSupers (S := S) ha hrecOK _ f ws wt k0.1 (k0.2.nodes _ hs) (k0.2.nodes _ ht))
+      have k2 := k1.trans (keeps_inferInverse (S := S) ha hrecOK _ f ws wt k1.1 (k1.2.nodes _ hs) (k1.2.nodes _ ht))
+      have l0s : (record S st f ws wt inf).h.isLive ws.obj = true := by rw [k0.2.isLive]; exact hls
+      have l0t : (record S st f ws wt inf).h.isLive wt.obj = true := by rw [k0.2.isLive]; exact hlt
+      have h3 := sim_inferTransitive hrecOK hsim _ f ws wt k2.1 (k2.2.nodes _ hs) (k2.2.nodes _ ht)
+        (by rw [k2.2.isLive]; exact hls) (by rw [k2.2.isLive]; exact hlt) hok
+      have h2 := sim_inferInverse ha hsim _ f ws wt k1.1 (k1.2.nodes _ hs) (k1.2.nodes _ ht)
+        (by rw [k1.2.isLive]; exact hls) (by rw [k1.2.isLive]; exact hlt) h3.1
+      have h1 := sim_inferSupers ha hrecOK hsim _ f ws wt k0.1 (k0.2.nodes _ hs) (k0.2.nodes _ ht) l0s l0t h2.1
+      refine ⟨?_, by rw [h3.2, h2.2, h1.2, sim_record st f ws wt inf hls hlt]⟩
+      -- `record` does not touch the flags
+      have : OK q (record S st f ws wt inf) → OK q st := by
+        unfold record OK; split <;> exact id
+      exact this h1.1
+
+theorem abs_addFact {q : Quirks} (S : Schema) {a : Alloc σ} (ha : a.Valid) (st : St σ) (f : Fld) (ws wt : W)
+    (hI : Inv q st)
+    (hs : ws ∈ st.g.nodes) (ht : wt ∈ st.g.nodes) (hls : st.h.isLive ws.obj = true)
+    (hlt : st.h.isLive wt.obj = true) (hok : OK q (SG.addFact q S a S.fuel st f ws wt false)) :
+    OK q st ∧ (SG.addFact q S a S.fuel st f ws wt false).abs = st.abs.assert S f ws.toR wt.toR :=
+  sim_addFact S ha S.fuel st f ws wt false hI hs ht hls hlt hok
 
 /-- **one operation**: if nothing stale or dead was hit, the model did what the specification does -/
 theorem step_abs (q : Quirks) (S : Schema) (a : Alloc σ) (ha : a.Valid) (st : St σ) (op : Op) (hI : Inv q st)
@@ -732,11 +780,11 @@ theorem step_abs (q : Quirks) (S : Schema) (a : Alloc σ) (ha : a.Valid) (st : S
           have hlt : st2.h.isLive wt.obj = true := by
             have : wt.obj = xt.obj := congrArg R.obj e.2.2.2.2.1
             rw [this, isLive_iff]; exact ⟨xt, by rw [e.2.2.2.2.2]; simpa using hxt.1, rfl⟩
-          have hok3 : OK q (SG.addFact q S S.fuel st2 f ws wt false) := hok
-          have r := abs_addFact S st2 f ws wt e.1 e.2.1 e.2.2.1 hls hlt hok3
+          have hok3 : OK q (SG.addFact q S a S.fuel st2 f ws wt false) := hok
+          have r := abs_addFact S ha st2 f ws wt e.1 e.2.1 e.2.2.1 hls hlt hok3
           refine ⟨hflag r.1, ?_⟩
           have r2 := r.2
-          generalize SG.addFact q S S.fuel st2 f ws wt false = st3 at *
+          generalize SG.addFact q S a S.fuel st2 f ws wt false = st3 at *
           have hh3 : st3.h = (st2.abs.assert S f ws.toR wt.toR).h := by rw [← r2]; rfl
           have k := abs_kill st3 (Heap.garbage q st3.h)
           simp only [Heap.collect]
@@ -755,17 +803,17 @@ theorem step_abs (q : Quirks) (S : Schema) (a : Alloc σ) (ha : a.Valid) (st : S
           have hlt : st2.h.isLive wt.obj = true := by
             have : wt.obj = xt.obj := congrArg R.obj e.2.2.2.2.1
             rw [this, isLive_iff]; exact ⟨xt, e.2.2.2.2.2 ▸ hxt.1, rfl⟩
-          have k3 := Inv.addFact S S.fuel st2 f ws wt false e.1 e.2.1 e.2.2.1
-          by_cases herr3 : (SG.addFact q S S.fuel st2 f ws wt false).err = true
+          have k3 := Inv.addFact S ha S.fuel st2 f ws wt false e.1 e.2.1 e.2.2.1
+          by_cases herr3 : (SG.addFact q S a S.fuel st2 f ws wt false).err = true
           · rw [if_pos herr3] at hok
             have := k3.1.not_err_of_OK hok
             rw [herr3] at this; cases this
           · rw [if_neg herr3] at hok ⊢
-            have hok3 : OK q (SG.addFact q S S.fuel st2 f ws wt false) := hok
-            have r := abs_addFact S st2 f ws wt e.1 e.2.1 e.2.2.1 hls hlt hok3
+            have hok3 : OK q (SG.addFact q S a S.fuel st2 f ws wt false) := hok
+            have r := abs_addFact S ha st2 f ws wt e.1 e.2.1 e.2.2.1 hls hlt hok3
             refine ⟨hflag r.1, ?_⟩
             have r2 := r.2
-            generalize SG.addFact q S S.fuel st2 f ws wt false = st3 at *
+            generalize SG.addFact q S a S.fuel st2 f ws wt false = st3 at *
             have a3 := abs_heap st3 (st3.h.write S f s t) (by simp)
             have hh3 : st3.h = (st2.abs.assert S f ws.toR wt.toR).h := by rw [← r2]; rfl
             rw [a3, hh3, r2, ae, ← e.2.2.2.1, ← e.2.2.2.2.1]
@@ -783,17 +831,17 @@ theorem step_abs (q : Quirks) (S : Schema) (a : Alloc σ) (ha : a.Valid) (st : S
           have hlt : st2.h.isLive wt.obj = true := by
             have : wt.obj = xt.obj := congrArg R.obj e.2.2.2.2.1
             rw [this, isLive_iff]; exact ⟨xt, e.2.2.2.2.2 ▸ hxt.1, rfl⟩
-          have k3 := Inv.addFact S S.fuel st2 f ws wt false e.1 e.2.1 e.2.2.1
-          by_cases herr3 : (SG.addFact q S S.fuel st2 f ws wt false).err = true
+          have k3 := Inv.addFact S ha S.fuel st2 f ws wt false e.1 e.2.1 e.2.2.1
+          by_cases herr3 : (SG.addFact q S a S.fuel st2 f ws wt false).err = true
           · rw [if_pos herr3] at hok
             have := k3.1.not_err_of_OK hok
             rw [herr3] at this; cases this
           · rw [if_neg herr3] at hok ⊢
-            have hok3 : OK q (SG.addFact q S S.fuel st2 f ws wt false) := hok
-            have r := abs_addFact S st2 f ws wt e.1 e.2.1 e.2.2.1 hls hlt hok3
+            have hok3 : OK q (SG.addFact q S a S.fuel st2 f ws wt false) := hok
+            have r := abs_addFact S ha st2 f ws wt e.1 e.2.1 e.2.2.1 hls hlt hok3
             refine ⟨hflag r.1, ?_⟩
             have r2 := r.2
-            generalize SG.addFact q S S.fuel st2 f ws wt false = st3 at *
+            generalize SG.addFact q S a S.fuel st2 f ws wt false = st3 at *
             have a3 := abs_heap st3 (st3.h.write S f s t) (by simp)
             have hh3 : st3.h = (st2.abs.assert S f ws.toR wt.toR).h := by rw [← r2]; rfl
             rw [a3, hh3, r2, ae, ← e.2.2.2.1, ← e.2.2.2.2.1]
@@ -811,17 +859,17 @@ theorem step_abs (q : Quirks) (S : Schema) (a : Alloc σ) (ha : a.Valid) (st : S
           have hlt : st2.h.isLive wt.obj = true := by
             have : wt.obj = xt.obj := congrArg R.obj e.2.2.2.2.1
             rw [this, isLive_iff]; exact ⟨xt, e.2.2.2.2.2 ▸ hxt.1, rfl⟩
-          have k3 := Inv.addFact S S.fuel st2 f ws wt false e.1 e.2.1 e.2.2.1
-          by_cases herr3 : (SG.addFact q S S.fuel st2 f ws wt false).err = true
+          have k3 := Inv.addFact S ha S.fuel st2 f ws wt false e.1 e.2.1 e.2.2.1
+          by_cases herr3 : (SG.addFact q S a S.fuel st2 f ws wt false).err = true
           · rw [if_pos herr3] at hok
             have := k3.1.not_err_of_OK hok
             rw [herr3] at this; cases this
           · rw [if_neg herr3] at hok ⊢
-            have hok3 : OK q (SG.addFact q S S.fuel st2 f ws wt false) := hok
-            have r := abs_addFact S st2 f ws wt e.1 e.2.1 e.2.2.1 hls hlt hok3
+            have hok3 : OK q (SG.addFact q S a S.fuel st2 f ws wt false) := hok
+            have r := abs_addFact S ha st2 f ws wt e.1 e.2.1 e.2.2.1 hls hlt hok3
             refine ⟨hflag r.1, ?_⟩
             have r2 := r.2
-            generalize SG.addFact q S S.fuel st2 f ws wt false = st3 at *
+            generalize SG.addFact q S a S.fuel st2 f ws wt false = st3 at *
             have a3 := abs_heap st3 (st3.h.write S f s t) (by simp)
             have hh3 : st3.h = (st2.abs.assert S f ws.toR wt.toR).h := by rw [← r2]; rfl
             rw [a3, hh3, r2, ae, ← e.2.2.2.1, ← e.2.2.2.2.1]
@@ -868,6 +916,24 @@ theorem step_abs (q : Quirks) (S : Schema) (a : Alloc σ) (ha : a.Valid) (st : S
         simp only [Heap.collect]
         rw [a2] at a3
         exact a3
+  | newrole o c pid e =>
+    simp only [hh] at hok ⊢
+    by_cases hc : (st.h.used.contains o || (st.h.live.any fun x => x.pid == pid) || !st.h.isLive e) = true
+    · simp only [if_pos hc] at hok ⊢
+      exact ⟨hok, trivial⟩
+    · simp only [if_neg hc] at hok ⊢
+      simp only [Bool.or_eq_true, List.contains_iff_mem, List.any_eq_true, beq_iff_eq, not_or, not_exists,
+        not_and] at hc
+      refine ⟨hok, ?_⟩
+      have := abs_addNode (a := a) hI ⟨o, c, pid⟩
+        { st.h with live := st.h.live ++ [⟨o, c, pid⟩], used := st.h.used ++ [o], held := st.h.held ++ [o],
+                    epoch := st.h.epoch ++ [o],
+                    fields := match S.takerFld c with
+                              | some tf => st.h.fields ++ [⟨o, tf, e⟩]
+                              | none => st.h.fields }
+        (by intro o'; simp [Heap.isLive, List.any_append])
+        (by intro w hw ho; have ho' : w.obj = o := ho; exact hc.1.1 (ho' ▸ hI.nodeUsed w hw))
+      exact this
 
 
 theorem run_abs (q : Quirks) (S : Schema) (a : Alloc σ) (ha : a.Valid) : ∀ (ops : List Op) (st : St σ), Inv q st →
@@ -984,8 +1050,198 @@ theorem ghost_write (S : Schema) (h : Heap) (u e : List Obj) (o : List QOut) (x 
   · dsimp only; split <;> rfl
   · rfl
 
+/-! the inference reads nothing of the ghost bookkeeping (it only extends the list of registered labels when it wraps
+a role taker) -/
+
+def GhostRec (u : List Obj) (o : List QOut) (x : Nat) (rec : Spec → Fld → R → R → Spec) : Prop :=
+  ∀ s e f a b, ∃ e', rec (s.ghost u e o x) f a b = (rec s f a b).ghost u e' o x
+
+theorem ghost_foldl {α : Type} (u : List Obj) (o : List QOut) (x : Nat) (fs : Spec → α → Spec)
+    (hstep : ∀ s e y, ∃ e', fs (s.ghost u e o x) y = (fs s y).ghost u e' o x) :
+    ∀ (l : List α) (s : Spec) (e : List Obj), ∃ e', l.foldl fs (s.ghost u e o x) = (l.foldl fs s).ghost u e' o x
+  | [], _, e => ⟨e, rfl⟩
+  | y :: l, s, e => by
+    obtain ⟨e1, h1⟩ := hstep s e y
+    simp only [List.foldl_cons]
+    rw [h1]
+    exact ghost_foldl u o x fs hstep l _ e1
+
+theorem ghost_record (S : Schema) (s : Spec) (u e : List Obj) (o : List QOut) (x : Nat) (f : Fld) (a b : R)
+    (inf : Bool) : (s.ghost u e o x).record S f a b inf = (s.record S f a b inf).ghost u e o x := by
+  unfold Spec.record; cases inf <;> rfl
+
+theorem ghost_inferTakerSupers {S : Schema} {u : List Obj} {o : List QOut} {x : Nat} {rec}
+    (hrec : GhostRec u o x rec) (s : Spec) (e : List Obj) (f : Fld) (a b : R) :
+    ∃ e', Spec.inferTakerSupers S rec (s.ghost u e o x) f a b =
+      (Spec.inferTakerSupers S rec s f a b).ghost u e' o x := by
+  unfold Spec.inferTakerSupers
+  have ht : (s.ghost u e o x).h.takerOf S a.obj a.cls = s.h.takerOf S a.obj a.cls := rfl
+  rw [ht]
+  split
+  · exact ⟨e, rfl⟩
+  · cases hx : s.h.takerOf S a.obj a.cls with
+    | none => exact ⟨e, rfl⟩
+    | some y =>
+      simp only
+      rw [ghost_ensure]
+      exact ghost_foldl u o x _ (fun s e f' => hrec s e f' _ b) _ _ _
+
+theorem ghost_inferSupers {S : Schema} {u : List Obj} {o : List QOut} {x : Nat} {rec}
+    (hrec : GhostRec u o x rec) (s : Spec) (e : List Obj) (f : Fld) (a b : R) :
+    ∃ e', Spec.inferSupers S rec (s.ghost u e o x) f a b = (Spec.inferSupers S rec s f a b).ghost u e' o x := by
+  unfold Spec.inferSupers
+  obtain ⟨e1, h1⟩ := ghost_foldl u o x (fun s f' => rec s f' a b) (fun s e f' => hrec s e f' a b) (S.supers f a.cls) s e
+  rw [h1]
+  exact ghost_inferTakerSupers hrec _ e1 f a b
+
+theorem ghost_inferInverse {S : Schema} {u : List Obj} {o : List QOut} {x : Nat} {rec}
+    (hrec : GhostRec u o x rec) (s : Spec) (e : List Obj) (f : Fld) (a b : R) :
+    ∃ e', Spec.inferInverse S rec (s.ghost u e o x) f a b = (Spec.inferInverse S rec s f a b).ghost u e' o x := by
+  unfold Spec.inferInverse
+  have ht : (s.ghost u e o x).h.takerOf S b.obj b.cls = s.h.takerOf S b.obj b.cls := rfl
+  rw [ht]
+  cases S.inverse f b.cls with
+  | some f' => exact hrec s e f' b a
+  | none =>
+    simp only
+    cases S.takerInverse f b.cls with
+    | none => exact ⟨e, rfl⟩
+    | some f' =>
+      simp only
+      cases hx : s.h.takerOf S b.obj b.cls with
+      | none => exact ⟨e, rfl⟩
+      | some y =>
+        simp only
+        rw [ghost_ensure]
+        exact hrec _ _ _ _ _
+
+theorem ghost_inferTransitive {S : Schema} {u : List Obj} {o : List QOut} {x : Nat} {rec}
+    (hrec : GhostRec u o x rec) (s : Spec) (e : List Obj) (f : Fld) (a b : R) :
+    ∃ e', Spec.inferTransitive S rec (s.ghost u e o x) f a b =
+      (Spec.inferTransitive S rec s f a b).ghost u e' o x := by
+  unfold Spec.inferTransitive
+  split
+  · unfold Spec.inferIn Spec.inferOut
+    have hed : ∀ (s : Spec) e, (s.ghost u e o x).edges = s.edges := fun _ _ => rfl
+    rw [hed]
+    obtain ⟨e1, h1⟩ := ghost_foldl u o x (fun s (ed : AEdge) => rec s ed.fld a ed.tgt)
+      (fun s e ed => hrec s e ed.fld a ed.tgt)
+      ((s.edges.filter (fun ed => ed.src == b && S.desc ed.fld == S.desc f)).reverse) s e
+    rw [h1, hed]
+    exact ghost_foldl u o x (fun s (ed : AEdge) => rec s ed.fld ed.src b)
+      (fun s e ed => hrec s e ed.fld ed.src b) _ _ e1
+  · exact ⟨e, rfl⟩
+
+theorem ghost_specAddFact (S : Schema) (u : List Obj) (o : List QOut) (x : Nat) :
+    ∀ (fuel : Nat), GhostRec u o x (fun s f a b => specAddFact S fuel s f a b true) ∧
+      ∀ s e f a b inf, ∃ e', specAddFact S fuel (s.ghost u e o x) f a b inf =
+        (specAddFact S fuel s f a b inf).ghost u e' o x
+  | 0 => ⟨fun _ e _ _ _ => ⟨e, rfl⟩, fun _ e _ _ _ _ => ⟨e, rfl⟩⟩
+  | fuel + 1 => by
+    have ih := (ghost_specAddFact S u o x fuel).1
+    have key : ∀ s e f a b inf, ∃ e', specAddFact S (fuel + 1) (s.ghost u e o x) f a b inf =
+        (specAddFact S (fuel + 1) s f a b inf).ghost u e' o x := by
+      intro s e f a b inf
+      unfold specAddFact
+      have hex : (s.ghost u e o x).exists_ f a b = s.exists_ f a b := rfl
+      rw [hex]
+      split
+      · exact ⟨e, rfl⟩
+      · rw [ghost_record]
+        obtain ⟨e1, h1⟩ := ghost_inferSupers (S := S) ih (s.record S f a b inf) e f a b
+        rw [h1]
+        obtain ⟨e2, h2⟩ := ghost_inferInverse (S := S) ih _ e1 f a b
+        rw [h2]
+        exact ghost_inferTransitive (S := S) ih _ e2 f a b
+    exact ⟨fun s e f a b => key s e f a b true, key⟩
+
 theorem ghost_assert (S : Schema) (s : Spec) (u e : List Obj) (o : List QOut) (x : Nat) (f : Fld) (a b : R) :
-    (s.ghost u e o x).assert S f a b = (s.assert S f a b).ghost u e o x := rfl
+    ∃ e', (s.ghost u e o x).assert S f a b = (s.assert S f a b).ghost u e' o x :=
+  (ghost_specAddFact S u o x S.fuel).2 s e f a b false
+
+/-- a property of specification states that every primitive step of the inference preserves is preserved by the
+inference (`E`: what the ends of the relations it asserts are known to satisfy) -/
+theorem foldl_specInv {α : Type} (I : Spec → Prop) (Q : α → Prop) (fs : Spec → α → Spec)
+    (hstep : ∀ s y, I s → Q y → I (fs s y)) : ∀ (l : List α) (s : Spec), I s → (∀ y ∈ l, Q y) → I (l.foldl fs s)
+  | [], _, h, _ => h
+  | y :: l, s, h, hq => by
+    simp only [List.foldl_cons]
+    exact foldl_specInv I Q fs hstep l _ (hstep s y h (hq y List.mem_cons_self))
+      (fun z hz => hq z (List.mem_cons_of_mem _ hz))
+
+theorem takerOf_live' {S : Schema} {h : Heap} {o : Obj} {c : Cls} {y : HObj} (hy : h.takerOf S o c = some y) :
+    y ∈ h.live := takerOf_live hy
+
+theorem specAddFact_inv (S : Schema) (I : Spec → Prop) (E : R → Prop)
+    (hrecord : ∀ s f a b inf, I s → E a → E b → I (s.record S f a b inf))
+    (hensure : ∀ s y, I s → y ∈ s.h.live → I (s.ensure y) ∧ E ⟨y.obj, y.cls⟩)
+    (hedge : ∀ s e, I s → e ∈ s.edges → E e.src ∧ E e.tgt) :
+    ∀ (fuel : Nat) (s : Spec) (f : Fld) (a b : R) (inf : Bool), I s → E a → E b →
+      I (specAddFact S fuel s f a b inf)
+  | 0, _, _, _, _, _, h, _, _ => h
+  | fuel + 1, s, f, a, b, inf, h, ha, hb => by
+    unfold specAddFact
+    split
+    · exact h
+    have hrec : ∀ s f a b, I s → E a → E b → I ((fun s f a b => specAddFact S fuel s f a b true) s f a b) :=
+      fun s f a b h ha hb => specAddFact_inv S I E hrecord hensure hedge fuel s f a b true h ha hb
+    have h1 := hrecord s f a b inf h ha hb
+    have h2 : I (Spec.inferSupers S (fun s f a b => specAddFact S fuel s f a b true) (s.record S f a b inf) f a b) := by
+      unfold Spec.inferSupers
+      have hd := foldl_specInv I (fun _ => True) (fun s f' => specAddFact S fuel s f' a b true)
+        (fun s f' hs _ => hrec s f' a b hs ha hb) (S.supers f a.cls) _ h1 (fun _ _ => trivial)
+      generalize (S.supers f a.cls).foldl (fun s f' => specAddFact S fuel s f' a b true) (s.record S f a b inf) = s1
+        at hd ⊢
+      unfold Spec.inferTakerSupers
+      split
+      · exact hd
+      · split
+        · exact hd
+        · rename_i y hy
+          have he := hensure s1 y hd (takerOf_live hy)
+          exact foldl_specInv I (fun _ => True) _ (fun s f' hs _ => hrec s f' _ b hs he.2 hb) _ _ he.1
+            (fun _ _ => trivial)
+    generalize Spec.inferSupers S (fun s f a b => specAddFact S fuel s f a b true) (s.record S f a b inf) f a b = s2
+      at h2 ⊢
+    have h3 : I (Spec.inferInverse S (fun s f a b => specAddFact S fuel s f a b true) s2 f a b) := by
+      unfold Spec.inferInverse
+      split
+      · exact hrec _ _ _ _ h2 hb ha
+      · split
+        · exact h2
+        · split
+          · exact h2
+          · rename_i y hy
+            have he := hensure s2 y h2 (takerOf_live hy)
+            exact hrec _ _ _ _ he.1 he.2 ha
+    generalize Spec.inferInverse S (fun s f a b => specAddFact S fuel s f a b true) s2 f a b = s3 at h3 ⊢
+    unfold Spec.inferTransitive
+    split
+    · have h4 : I (Spec.inferOut S (fun s f a b => specAddFact S fuel s f a b true) s3 f a b) := by
+        unfold Spec.inferOut
+        refine foldl_specInv I (fun (e : AEdge) => E e.tgt) _ (fun s e hs he => hrec s e.fld a e.tgt hs ha he) _ _ h3 ?_
+        intro e he
+        exact (hedge s3 e h3 (List.mem_filter.1 (List.mem_reverse.1 he)).1).2
+      generalize Spec.inferOut S (fun s f a b => specAddFact S fuel s f a b true) s3 f a b = s4 at h4 ⊢
+      unfold Spec.inferIn
+      refine foldl_specInv I (fun (e : AEdge) => E e.src) _ (fun s e hs he => hrec s e.fld e.src b hs he hb) _ _ h4 ?_
+      intro e he
+      exact (hedge s4 e h4 (List.mem_filter.1 (List.mem_reverse.1 he)).1).1
+    · exact h3
+
+/-- the inference only writes field contents and the ghost list of registered labels -/
+theorem assert_heap (S : Schema) (s : Spec) (f : Fld) (a b : R) :
+    (s.assert S f a b).h.live = s.h.live ∧ (s.assert S f a b).h.used = s.h.used ∧
+    (s.assert S f a b).h.held = s.h.held ∧ (s.assert S f a b).h.qvars = s.h.qvars ∧
+    (s.assert S f a b).h.out = s.h.out ∧ (s.assert S f a b).h.exprs = s.h.exprs := by
+  refine specAddFact_inv S (fun s' => s'.h.live = s.h.live ∧ s'.h.used = s.h.used ∧ s'.h.held = s.h.held ∧
+      s'.h.qvars = s.h.qvars ∧ s'.h.out = s.h.out ∧ s'.h.exprs = s.h.exprs) (fun _ => True)
+    ?_ ?_ (fun _ _ _ _ => ⟨trivial, trivial⟩) S.fuel s f a b false ⟨rfl, rfl, rfl, rfl, rfl, rfl⟩ trivial trivial
+  · intro s' f a b inf h _ _
+    unfold Spec.record
+    cases inf <;> exact h
+  · intro s' y h _
+    exact ⟨h, trivial⟩
 
 theorem ghost_dropQuery (q : Quirks) (h : Heap) (u e : List Obj) (o : List QOut) (x : Nat) (k : Nat) :
     Heap.dropQuery q { h with used := u, epoch := e, out := o, exprs := x } k =
@@ -998,10 +1254,12 @@ theorem dropQuery_used (q : Quirks) (h : Heap) (k : Nat) : (h.dropQuery q k).use
   unfold Heap.dropQuery; split <;> rfl
 
 /-- only `new` uses up a label -/
-theorem specStep_used (q : Quirks) (S : Schema) (s : Spec) (op : Op) (hop : ∀ o c pid, op ≠ .new o c pid) :
+theorem specStep_used (q : Quirks) (S : Schema) (s : Spec) (op : Op) (hop : ∀ o c pid, op ≠ .new o c pid)
+    (hopR : ∀ o c pid e, op ≠ .newrole o c pid e) :
     (specStep q S s op).h.used = s.h.used := by
   cases op with
   | new o c pid => exact absurd rfl (hop o c pid)
+  | newrole o c pid e => exact absurd rfl (hopR o c pid e)
   | drop l => rfl
   | sweep => rfl
   | clear => rfl
@@ -1014,10 +1272,11 @@ theorem specStep_used (q : Quirks) (S : Schema) (s : Spec) (op : Op) (hop : ∀ 
     simp only [specStep]
     split
     · split
-      · show (Heap.write S s.h f a b).used = s.h.used
+      · show (Spec.assert S _ f _ _).h.used = s.h.used
+        rw [(assert_heap S _ f _ _).2.1]
         exact write_used _ _ _ _ _
-      · show (Heap.write S _ f a b).used = _
-        rw [write_used]; rfl
+      · show (Heap.write S (Spec.assert S _ f _ _).h f a b).used = _
+        rw [write_used, (assert_heap S _ f _ _).2.1]; rfl
     · rfl
   | mkq k c dom =>
     simp only [specStep]
@@ -1036,17 +1295,43 @@ theorem specStep_used (q : Quirks) (S : Schema) (s : Spec) (op : Op) (hop : ∀ 
 
 /-- one operation preserves "equal up to ghost bookkeeping", provided a new instance does not re-use a label of `U` -/
 theorem specStep_sim (q : Quirks) (S : Schema) (U : List Obj) (s1 s2 : Spec) (op : Op) (h : Sim U s1 s2)
-    (hop : ∀ o c pid, op = .new o c pid → o ∉ U) : Sim U (specStep q S s1 op) (specStep q S s2 op) := by
+    (hop : ∀ o c pid, op = .new o c pid → o ∉ U) (hopR : ∀ o c pid t, op = .newrole o c pid t → o ∉ U) :
+    Sim U (specStep q S s1 op) (specStep q S s2 op) := by
   obtain ⟨u, e, o, x, rfl, hu1, hu2⟩ := h
+  by_cases hnewR : ∃ l c pid t, op = .newrole l c pid t
+  · obtain ⟨l, c, pid, t, rfl⟩ := hnewR
+    have hl : l ∉ U := hopR l c pid t rfl
+    simp only [specStep]
+    have hc : (s2.ghost u e o x).h.used.contains l = s2.h.used.contains l := by
+      rw [Bool.eq_iff_iff]; simp only [List.contains_iff_mem]
+      exact ⟨fun h => (hu2 l h).resolve_right hl, hu1 l⟩
+    have hlive : (s2.ghost u e o x).h.live = s2.h.live := rfl
+    have hisl : (s2.ghost u e o x).h.isLive t = s2.h.isLive t := rfl
+    rw [hc, hlive, hisl]
+    split
+    · exact ⟨u, e, o, x, rfl, hu1, hu2⟩
+    · refine ⟨u ++ [l], e ++ [l], o, x, rfl, ?_, ?_⟩
+      · intro l'; simp only [List.mem_append, List.mem_singleton]
+        rintro (h | h)
+        · exact Or.inl (hu1 _ h)
+        · exact Or.inr h
+      · intro l'; simp only [List.mem_append, List.mem_singleton]
+        rintro (h | h)
+        · rcases hu2 _ h with h | h
+          · exact Or.inl (Or.inl h)
+          · exact Or.inr h
+        · exact Or.inl (Or.inr h)
   by_cases hnew : ∃ l c pid, op = .new l c pid
   swap
   · -- not `new`: the labels in use do not change
     have hused := specStep_used q S s2 op (fun l c pid h => hnew ⟨l, c, pid, h⟩)
+      (fun l c pid t h => hnewR ⟨l, c, pid, t, h⟩)
     suffices ∃ e' o' x', specStep q S (s2.ghost u e o x) op = (specStep q S s2 op).ghost u e' o' x' by
       obtain ⟨e', o', x', h⟩ := this
       exact ⟨u, e', o', x', h, by rw [hused]; exact hu1, by rw [hused]; exact hu2⟩
     cases op with
     | new l c pid => exact absurd ⟨l, c, pid, rfl⟩ hnew
+    | newrole l c pid t => exact absurd ⟨l, c, pid, t, rfl⟩ hnewR
     | drop l =>
       refine ⟨e, o, x, ?_⟩
       simp only [specStep]
@@ -1083,20 +1368,25 @@ theorem specStep_sim (q : Quirks) (S : Schema) (U : List Obj) (s1 s2 : Spec) (op
               ({ s2 with h := s2.h.write S f a b } : Spec).ghost u e o x := by
             show ({ s2 with h := Heap.write S { s2.h with used := u, epoch := e, out := o, exprs := x } f a b } : Spec) = _
             rw [ghost_write]; rfl
-          rw [h0, ghost_ensure, ghost_ensure, ghost_assert]
+          rw [h0, ghost_ensure, ghost_ensure]
           generalize (if (if e.contains xa.obj = true then e else e ++ [xa.obj]).contains xb.obj = true then
             (if e.contains xa.obj = true then e else e ++ [xa.obj])
-            else (if e.contains xa.obj = true then e else e ++ [xa.obj]) ++ [xb.obj]) = e2
+            else (if e.contains xa.obj = true then e else e ++ [xa.obj]) ++ [xb.obj]) = e1
+          obtain ⟨e2, hga⟩ := ghost_assert S ((({ s2 with h := s2.h.write S f a b } : Spec).ensure xa).ensure xb) u e1 o x f
+            ⟨xa.obj, xa.cls⟩ ⟨xb.obj, xb.cls⟩
+          rw [hga]
           refine ⟨e2, o, x, ?_⟩
           generalize ((({ s2 with h := s2.h.write S f a b } : Spec).ensure xa).ensure xb).assert S f
             ⟨xa.obj, xa.cls⟩ ⟨xb.obj, xb.cls⟩ = B
           show ({ B with h := Heap.collect q { B.h with used := u, epoch := e2, out := o, exprs := x } } : Spec).prune = _
           rw [ghost_collect]; rfl
         · -- containers
-          rw [ghost_ensure, ghost_ensure, ghost_assert]
+          rw [ghost_ensure, ghost_ensure]
           generalize (if (if e.contains xa.obj = true then e else e ++ [xa.obj]).contains xb.obj = true then
             (if e.contains xa.obj = true then e else e ++ [xa.obj])
-            else (if e.contains xa.obj = true then e else e ++ [xa.obj]) ++ [xb.obj]) = e2
+            else (if e.contains xa.obj = true then e else e ++ [xa.obj]) ++ [xb.obj]) = e1
+          obtain ⟨e2, hga⟩ := ghost_assert S ((s2.ensure xa).ensure xb) u e1 o x f ⟨xa.obj, xa.cls⟩ ⟨xb.obj, xb.cls⟩
+          rw [hga]
           refine ⟨e2, o, x, ?_⟩
           generalize ((s2.ensure xa).ensure xb).assert S f ⟨xa.obj, xa.cls⟩ ⟨xb.obj, xb.cls⟩ = B
           show ({ B with h := Heap.write S { B.h with used := u, epoch := e2, out := o, exprs := x } f a b } : Spec) = _
@@ -1156,14 +1446,16 @@ theorem specStep_sim (q : Quirks) (S : Schema) (U : List Obj) (s1 s2 : Spec) (op
 
 
 theorem foldl_specStep_sim (q : Quirks) (S : Schema) (U : List Obj) : ∀ (ops : List Op) (s1 s2 : Spec),
-    Sim U s1 s2 → (∀ o c pid, Op.new o c pid ∈ ops → o ∉ U) →
+    Sim U s1 s2 → (∀ o c pid, Op.new o c pid ∈ ops → o ∉ U) → (∀ o c pid t, Op.newrole o c pid t ∈ ops → o ∉ U) →
     Sim U (ops.foldl (specStep q S) s1) (ops.foldl (specStep q S) s2)
-  | [], _, _, h, _ => h
-  | op :: ops, s1, s2, h, hf => by
+  | [], _, _, h, _, _ => h
+  | op :: ops, s1, s2, h, hf, hfR => by
     simp only [List.foldl_cons]
     exact foldl_specStep_sim q S U ops _ _
-      (specStep_sim q S U s1 s2 op h (fun o c pid he => hf o c pid (he ▸ List.mem_cons_self)))
+      (specStep_sim q S U s1 s2 op h (fun o c pid he => hf o c pid (he ▸ List.mem_cons_self))
+        (fun o c pid t he => hfR o c pid t (he ▸ List.mem_cons_self)))
       (fun o c pid hm => hf o c pid (List.mem_cons_of_mem _ hm))
+      (fun o c pid t hm => hfR o c pid t (List.mem_cons_of_mem _ hm))
 
 /-- nothing of a history is left at the level of objects: every instance it created is dead, no reference, field
 content, query object, registry entry or relation remains -/
@@ -1184,9 +1476,10 @@ theorem specRun_append (q : Quirks) (S : Schema) (p s : List Op) :
 
 /-- the specification forgets a garbage prefix -/
 theorem spec_forgets (q : Quirks) (S : Schema) (p s : List Op) (hg : Garbage (specRun q S p))
-    (hfresh : ∀ o c pid, Op.new o c pid ∈ s → o ∉ (specRun q S p).h.used) :
+    (hfresh : ∀ o c pid, Op.new o c pid ∈ s → o ∉ (specRun q S p).h.used)
+    (hfreshR : ∀ o c pid t, Op.newrole o c pid t ∈ s → o ∉ (specRun q S p).h.used) :
     (specRun q S (p ++ s)).relObs = (specRun q S s).relObs := by
-  have h := foldl_specStep_sim q S _ s _ _ (sim_of_garbage _ hg) hfresh
+  have h := foldl_specStep_sim q S _ s _ _ (sim_of_garbage _ hg) hfresh hfreshR
   rw [specRun_append]
   obtain ⟨u, e, o, x, heq, _, _⟩ := h
   rw [heq]
@@ -1200,11 +1493,12 @@ contents after `p ++ s` are those of `s` run on a fresh graph. -/
 theorem C14_fresh_equiv {σ' : Type} (q : Quirks) (hq1 : q.staleRelIndex = false) (hq2 : q.deadEndpointRaises = false)
     (S : Schema) (a : Alloc σ) (ha : a.Valid) (a' : Alloc σ') (ha' : a'.Valid) (p s : List Op)
     (hg : Garbage (specRun q S p))
-    (hfresh : ∀ o c pid, Op.new o c pid ∈ s → o ∉ (specRun q S p).h.used) :
+    (hfresh : ∀ o c pid, Op.new o c pid ∈ s → o ∉ (specRun q S p).h.used)
+    (hfreshR : ∀ o c pid t, Op.newrole o c pid t ∈ s → o ∉ (specRun q S p).h.used) :
     (run q S a (p ++ s)).relObs = (run q S a' s).relObs := by
   rw [(C14_model_eq_spec q S a ha (p ++ s) ⟨Or.inl hq1, Or.inl hq2⟩).2,
     (C14_model_eq_spec q S a' ha' s ⟨Or.inl hq1, Or.inl hq2⟩).2]
-  exact spec_forgets q S p s hg hfresh
+  exact spec_forgets q S p s hg hfresh hfreshR
 
 /-- the garbage condition can be read off the model as well (same statement, through `C14_model_eq_spec`) -/
 theorem garbage_of_model (q : Quirks) (hq1 : q.staleRelIndex = false) (hq2 : q.deadEndpointRaises = false)
@@ -1216,87 +1510,13 @@ theorem garbage_of_model (q : Quirks) (hq1 : q.staleRelIndex = false) (hq2 : q.d
 /-! ### "every instance of the prefix is dead" is enough: the specification only mentions live instances -/
 
 /-- field contents and relations only mention instances for which `L` holds -/
-def RelOK (L : Obj → Bool) (r : RelSt) : Prop :=
-  (∀ e ∈ r.fields, L e.owner = true) ∧ (∀ e ∈ r.edges, L e.src.obj = true ∧ L e.tgt.obj = true)
-
-theorem relOK_record {L : Obj → Bool} {S : Schema} {r : RelSt} (h : RelOK L r) (f : Fld) (a b : R) (inf : Bool)
-    (ha : L a.obj = true) (hb : L b.obj = true) : RelOK L (r.record S f a b inf) := by
-  unfold RelSt.record
-  have hedges : ∀ e ∈ r.edges ++ [(⟨f, a, b, inf⟩ : AEdge)], L e.src.obj = true ∧ L e.tgt.obj = true := by
-    intro e he
-    rcases List.mem_append.1 he with h1 | h1
-    · exact h.2 e h1
-    · simp only [List.mem_singleton] at h1; subst h1; exact ⟨ha, hb⟩
-  split
-  · refine ⟨?_, hedges⟩
-    intro e he
-    unfold updateFields at he
-    split at he
-    · rcases List.mem_append.1 he with h1 | h1
-      · exact h.1 e (List.mem_filter.1 h1).1
-      · simp only [List.mem_singleton] at h1; subst h1; exact ha
-    · split at he
-      · exact h.1 e he
-      · rcases List.mem_append.1 he with h1 | h1
-        · exact h.1 e h1
-        · simp only [List.mem_singleton] at h1; subst h1; exact ha
-  · exact ⟨h.1, hedges⟩
-
-theorem foldl_relOK {α : Type} {L : Obj → Bool} (f : RelSt → α → RelSt) (Q : RelSt → α → Prop)
-    (hstep : ∀ r x, RelOK L r → Q r x → RelOK L (f r x))
-    (hQ : ∀ r r' x, RelOK L r → RelOK L r' → Q r x → Q r' x) :
-    ∀ (l : List α) (r : RelSt), RelOK L r → (∀ x ∈ l, Q r x) → RelOK L (l.foldl f r)
-  | [], _, h, _ => h
-  | x :: l, r, h, hq => by
-    simp only [List.foldl_cons]
-    have h1 := hstep r x h (hq x List.mem_cons_self)
-    exact foldl_relOK f Q hstep hQ l _ h1 (fun y hy => hQ r _ y h h1 (hq y (List.mem_cons_of_mem _ hy)))
-
-theorem relOK_specAddFact {L : Obj → Bool} (S : Schema) : ∀ (fuel : Nat) (r : RelSt) (f : Fld) (a b : R) (inf : Bool),
-    RelOK L r → L a.obj = true → L b.obj = true → RelOK L (specAddFact S fuel r f a b inf)
-  | 0, _, _, _, _, _, h, _, _ => h
-  | fuel + 1, r, f, a, b, inf, h, ha, hb => by
-    unfold specAddFact
-    split
-    · exact h
-    have hrec : ∀ r f a b, RelOK L r → L a.obj = true → L b.obj = true →
-        RelOK L ((fun s f a b => specAddFact S fuel s f a b true) r f a b) :=
-      fun r f a b h ha hb => relOK_specAddFact S fuel r f a b true h ha hb
-    have h1 := relOK_record (S := S) h f a b inf ha hb
-    have h2 : RelOK L (RelSt.inferSupers S (fun s f a b => specAddFact S fuel s f a b true)
-        (r.record S f a b inf) f a b) := by
-      unfold RelSt.inferSupers
-      exact foldl_relOK _ (fun _ _ => True) (fun r x hr _ => hrec r x a b hr ha hb) (fun _ _ _ _ _ _ => trivial)
-        _ _ h1 (fun _ _ => trivial)
-    have h3 : RelOK L (RelSt.inferInverse S (fun s f a b => specAddFact S fuel s f a b true)
-        (RelSt.inferSupers S (fun s f a b => specAddFact S fuel s f a b true) (r.record S f a b inf) f a b) f a b) := by
-      unfold RelSt.inferInverse
-      split
-      · exact hrec _ _ _ _ h2 hb ha
-      · exact h2
-    generalize RelSt.inferInverse S (fun s f a b => specAddFact S fuel s f a b true)
-        (RelSt.inferSupers S (fun s f a b => specAddFact S fuel s f a b true) (r.record S f a b inf) f a b) f a b = r3
-      at h3 ⊢
-    unfold RelSt.inferTransitive
-    split
-    · have h4 : RelOK L (RelSt.inferOut S (fun s f a b => specAddFact S fuel s f a b true) r3 f a b) := by
-        unfold RelSt.inferOut
-        refine foldl_relOK _ (fun _ (e : AEdge) => L e.tgt.obj = true) (fun r x hr hx => hrec r x.fld a x.tgt hr ha hx)
-          (fun _ _ _ _ _ hx => hx) _ _ h3 ?_
-        intro e he
-        exact (h3.2 e (List.mem_filter.1 (List.mem_reverse.1 he)).1).2
-      generalize RelSt.inferOut S (fun s f a b => specAddFact S fuel s f a b true) r3 f a b = r4 at h4 ⊢
-      unfold RelSt.inferIn
-      refine foldl_relOK _ (fun _ (e : AEdge) => L e.src.obj = true) (fun r x hr hx => hrec r x.fld x.src b hr hx hb)
-        (fun _ _ _ _ _ hx => hx) _ _ h4 ?_
-      intro e he
-      exact (h4.2 e (List.mem_filter.1 (List.mem_reverse.1 he)).1).1
-    · exact h3
+def RelOK (L : Obj → Bool) (fields : List FEntry) (edges : List AEdge) : Prop :=
+  (∀ e ∈ fields, L e.owner = true) ∧ (∀ e ∈ edges, L e.src.obj = true ∧ L e.tgt.obj = true)
 
 /-- everything a specification state mentions is alive -/
 structure SpecInv (s : Spec) : Prop where
   held : ∀ o ∈ s.h.held, s.h.isLive o = true
-  rel : RelOK s.h.isLive ⟨s.h.fields, s.edges⟩
+  rel : RelOK s.h.isLive (s.h.fields) (s.edges)
   reg : ∀ r ∈ s.reg, s.h.isLive r.obj = true
 
 theorem reach_superset (h : Heap) : ∀ (n : Nat) (seen : List Obj), ∀ o ∈ seen, o ∈ h.reach n seen
@@ -1358,7 +1578,7 @@ theorem SpecInv.ofHeap {s : Spec} (hI : SpecInv s) (h' : Heap) (hl : h'.live = s
   have hisl : h'.isLive = s.h.isLive := by funext o; simp [Heap.isLive, hl]
   constructor
   · intro o ho; show h'.isLive o = true; rw [hisl]; exact hI.held o (hh o ho)
-  · show RelOK h'.isLive ⟨h'.fields, s.edges⟩
+  · show RelOK h'.isLive (h'.fields) (s.edges)
     rw [hisl, hf]; exact hI.rel
   · intro r hr; show h'.isLive r.obj = true; rw [hisl]; exact hI.reg r hr
 
@@ -1378,13 +1598,61 @@ theorem SpecInv.ensure {s : Spec} (hI : SpecInv s) (x : HObj) (hx : x ∈ s.h.li
       · simp only [List.mem_singleton] at h; subst h
         exact (isLive_iff _ _).2 ⟨x, hx, rfl⟩
 
+theorem SpecInv.record {s : Spec} (hI : SpecInv s) (S : Schema) (f : Fld) (a b : R) (inf : Bool)
+    (ha : s.h.isLive a.obj = true) (hb : s.h.isLive b.obj = true) : SpecInv (s.record S f a b inf) := by
+  have hedges : ∀ e ∈ s.edges ++ [(⟨f, a, b, inf⟩ : AEdge)],
+      s.h.isLive e.src.obj = true ∧ s.h.isLive e.tgt.obj = true := by
+    intro e he
+    rcases List.mem_append.1 he with h1 | h1
+    · exact hI.rel.2 e h1
+    · simp only [List.mem_singleton] at h1; subst h1; exact ⟨ha, hb⟩
+  unfold Spec.record
+  cases inf with
+  | false => exact ⟨hI.held, ⟨hI.rel.1, hedges⟩, hI.reg⟩
+  | true =>
+    have hisl : (s.h.updateValue S f a.obj b.obj).isLive = s.h.isLive := by
+      funext o; simp [Heap.isLive, Heap.updateValue]
+    constructor
+    · intro o ho
+      show (s.h.updateValue S f a.obj b.obj).isLive o = true
+      rw [hisl]; exact hI.held o ho
+    · show RelOK (s.h.updateValue S f a.obj b.obj).isLive (updateFields S s.h.fields f a.obj b.obj)
+        (s.edges ++ [⟨f, a, b, true⟩])
+      rw [hisl]
+      refine ⟨?_, hedges⟩
+      intro e he
+      unfold updateFields at he
+      split at he
+      · rcases List.mem_append.1 he with h1 | h1
+        · exact hI.rel.1 e (List.mem_filter.1 h1).1
+        · simp only [List.mem_singleton] at h1; subst h1; exact ha
+      · split at he
+        · exact hI.rel.1 e he
+        · rcases List.mem_append.1 he with h1 | h1
+          · exact hI.rel.1 e h1
+          · simp only [List.mem_singleton] at h1; subst h1; exact ha
+    · intro r hr
+      show (s.h.updateValue S f a.obj b.obj).isLive r.obj = true
+      rw [hisl]; exact hI.reg r hr
+
 theorem SpecInv.assert {s : Spec} (hI : SpecInv s) (S : Schema) (f : Fld) (a b : R) (ha : s.h.isLive a.obj = true)
     (hb : s.h.isLive b.obj = true) : SpecInv (s.assert S f a b) := by
-  have hr := relOK_specAddFact (L := s.h.isLive) S S.fuel ⟨s.h.fields, s.edges⟩ f a b false hI.rel ha hb
-  constructor
-  · exact hI.held
-  · exact hr
-  · exact hI.reg
+  have := specAddFact_inv S (fun s' => SpecInv s' ∧ s'.h.live = s.h.live) (fun r => s.h.isLive r.obj = true)
+    (by
+      intro s' f a b inf h ha hb
+      have hisl : s'.h.isLive = s.h.isLive := by funext o; simp [Heap.isLive, h.2]
+      refine ⟨h.1.record S f a b inf (by rw [hisl]; exact ha) (by rw [hisl]; exact hb), ?_⟩
+      unfold Spec.record; cases inf <;> exact h.2)
+    (by
+      intro s' y h hy
+      refine ⟨⟨h.1.ensure y hy, h.2⟩, ?_⟩
+      rw [isLive_iff]; exact ⟨y, h.2 ▸ hy, rfl⟩)
+    (by
+      intro s' e h he
+      have hisl : s'.h.isLive = s.h.isLive := by funext o; simp [Heap.isLive, h.2]
+      rw [← hisl]; exact h.1.rel.2 e he)
+    S.fuel s f a b false ⟨hI, rfl⟩ ha hb
+  exact this.1
 
 theorem ensure_live (s : Spec) (x : HObj) : (s.ensure x).h.live = s.h.live := rfl
 
@@ -1397,7 +1665,7 @@ theorem SpecInv.write {s : Spec} (hI : SpecInv s) (S : Schema) (f : Fld) (a b : 
     rw [hisl]; apply hI.held
     have : (s.h.write S f a b).held = s.h.held := by unfold Heap.write; split <;> (try split) <;> rfl
     exact this ▸ ho
-  · show RelOK (s.h.write S f a b).isLive ⟨(s.h.write S f a b).fields, s.edges⟩
+  · show RelOK (s.h.write S f a b).isLive ((s.h.write S f a b).fields) (s.edges)
     rw [hisl]
     refine ⟨?_, hI.rel.2⟩
     intro e he
@@ -1406,7 +1674,7 @@ theorem SpecInv.write {s : Spec} (hI : SpecInv s) (S : Schema) (f : Fld) (a b : 
     · rcases List.mem_append.1 he with h1 | h1
       · exact hI.rel.1 e (List.mem_filter.1 h1).1
       · simp only [List.mem_singleton] at h1; subst h1; exact ha
-    · dsimp only at he
+    · try dsimp only at he
       split at he
       · exact hI.rel.1 e he
       · rcases List.mem_append.1 he with h1 | h1
@@ -1486,7 +1754,7 @@ theorem specStep_inv (q : Quirks) (S : Schema) (s : Spec) (op : Op) (hI : SpecIn
       · have h2 := (hI.ensure xa hxa.1).ensure xb hxb.1
         have h3 := h2.assert S f ⟨xa.obj, xa.cls⟩ ⟨xb.obj, xb.cls⟩
           ((isLive_iff _ _).2 ⟨xa, hxa.1, rfl⟩) ((isLive_iff _ _).2 ⟨xb, hxb.1, rfl⟩)
-        exact h3.write S f a b ((isLive_iff _ _).2 ⟨xa, hxa.1, hxa.2⟩)
+        exact h3.write S f a b ((isLive_iff _ _).2 ⟨xa, by rw [(assert_heap S _ f _ _).1]; exact hxa.1, hxa.2⟩)
     · exact hI
   | mkq k c dom =>
     simp only [specStep]
@@ -1505,6 +1773,35 @@ theorem specStep_inv (q : Quirks) (S : Schema) (s : Spec) (op : Op) (hI : SpecIn
     · split
       · exact hI
       · refine hI.collectPrune q _ ?_ ?_ ?_ <;> unfold Heap.dropQuery <;> split <;> first | rfl | exact fun _ h => h
+  | newrole o c pid t =>
+    simp only [specStep]
+    split
+    · exact hI
+    · have hsub : ∀ x ∈ s.h.live, x ∈ s.h.live ++ [(⟨o, c, pid⟩ : HObj)] := fun x hx => List.mem_append_left _ hx
+      have hnew : Heap.isLive { s.h with live := s.h.live ++ [(⟨o, c, pid⟩ : HObj)] } o = true :=
+        (isLive_iff _ _).2 ⟨⟨o, c, pid⟩, by simp, rfl⟩
+      constructor
+      · intro o' ho'
+        rcases List.mem_append.1 ho' with h | h
+        · exact isLive_mono hsub _ (hI.held o' h)
+        · simp only [List.mem_singleton] at h; subst h
+          exact (isLive_iff _ _).2 ⟨⟨o', c, pid⟩, by simp, rfl⟩
+      · refine ⟨?_, fun e he => ⟨isLive_mono hsub _ (hI.rel.2 e he).1, isLive_mono hsub _ (hI.rel.2 e he).2⟩⟩
+        intro e he
+        have he' : e ∈ (match S.takerFld c with
+                        | some tf => s.h.fields ++ [(⟨o, tf, t⟩ : FEntry)]
+                        | none => s.h.fields) := he
+        split at he'
+        · rcases List.mem_append.1 he' with h | h
+          · exact isLive_mono hsub _ (hI.rel.1 e h)
+          · simp only [List.mem_singleton] at h; subst h
+            exact (isLive_iff _ _).2 ⟨⟨o, c, pid⟩, by simp, rfl⟩
+        · exact isLive_mono hsub _ (hI.rel.1 e he')
+      · intro r hr
+        rcases List.mem_append.1 hr with h | h
+        · exact isLive_mono hsub _ (hI.reg r h)
+        · simp only [List.mem_singleton] at h; subst h
+          exact (isLive_iff _ _).2 ⟨⟨o, c, pid⟩, by simp, rfl⟩
 
 theorem specRun_inv (q : Quirks) (S : Schema) (ops : List Op) : SpecInv (specRun q S ops) := by
   unfold specRun
@@ -1531,9 +1828,10 @@ by the prefix is dead at its end and no query object of the prefix is left. -/
 theorem C14_fresh_equiv_dead {σ' : Type} (q : Quirks) (hq1 : q.staleRelIndex = false)
     (hq2 : q.deadEndpointRaises = false) (S : Schema) (a : Alloc σ) (ha : a.Valid) (a' : Alloc σ') (ha' : a'.Valid)
     (p s : List Op) (hl : (specRun q S p).h.live = []) (hq : (specRun q S p).h.qvars = [])
-    (hfresh : ∀ o c pid, Op.new o c pid ∈ s → o ∉ (specRun q S p).h.used) :
+    (hfresh : ∀ o c pid, Op.new o c pid ∈ s → o ∉ (specRun q S p).h.used)
+    (hfreshR : ∀ o c pid t, Op.newrole o c pid t ∈ s → o ∉ (specRun q S p).h.used) :
     (run q S a (p ++ s)).relObs = (run q S a' s).relObs :=
-  C14_fresh_equiv q hq1 hq2 S a ha a' ha' p s (garbage_of_dead q S p hl hq) hfresh
+  C14_fresh_equiv q hq1 hq2 S a ha a' ha' p s (garbage_of_dead q S p hl hq) hfresh hfreshR
 
 /-! ### witnesses (tests on concrete inputs, on the schema of the harness) and non-vacuity -/
 
@@ -1593,6 +1891,36 @@ example :
     let ops := [Op.new 0 2 0, .new 1 1 1, .set 0 0 1, .drop 0, .drop 1, .sweep, .new 2 2 0, .new 3 1 1, .set 0 2 3]
     (run Quirks.original schema lifo ops).staleHit = false ∧ (run Quirks.original schema lifo ops).deadHit = false ∧
     (run Quirks.original schema lifo ops).g.reused = true ∧ (run Quirks.original schema lifo ops).g.relIdx.length = 6 := by
+  decide
+
+open KrroodVerif.Drive.SG in
+/-- **C14_role_witness** (test on the schema of the harness; non-vacuity of the role-taker part of the theorems above —
+they quantify over every schema and every history, role classes and `Op.newrole` included): an Emp 0, an Org 1,
+`Chair(2, emp=0)`; `clear()` makes the registry forget all three; `chair.head_of = org` wraps the chair and the org, and
+the inference through the role taker wraps the Emp IN THE MIDDLE of the inference (third node) and infers, in the order
+of the code: works_for and member_of on the role taker (super-properties of HeadOf on the role-taker type), members on
+the org for the Emp (inverse of member_of), then members on the org for the chair (inverse of head_of), whose own inverse
+— looked up on the chair's role taker — is the member_of relation already known. Model and specification agree. -/
+theorem C14_role_witness :
+    let ops : List Op := [.new 0 2 0, .new 1 1 1, .newrole 2 8 2 0, .clear, .set 6 2 1]
+    (run Quirks.asIs schema lifo ops).g.nodes.map (·.obj) = [2, 1, 0] ∧
+    (run Quirks.asIs schema lifo ops).abs.edges.map (fun e => (e.fld, e.src.obj, e.tgt.obj, e.inferred)) =
+      [(6, 2, 1, false), (0, 0, 1, true), (1, 0, 1, true), (2, 1, 0, true), (2, 1, 2, true)] ∧
+    (run Quirks.asIs schema lifo ops).h.fields.map (fun e => (e.owner, e.fld, e.val)) =
+      [(2, 9, 0), (2, 6, 1), (0, 0, 1), (0, 1, 1), (1, 2, 0), (1, 2, 2)] ∧
+    (run Quirks.asIs schema lifo ops).relObs = (specRun Quirks.asIs schema ops).relObs ∧
+    (specRun Quirks.asIs schema ops).reg.map (·.obj) = [2, 1, 0] := by
+  decide
+
+open KrroodVerif.Drive.SG in
+/-- the hypotheses of `C14_fresh_equiv_dead` are met by a prefix and a suffix WITH roles (test): the prefix creates an
+Emp, an Org and a Chair, asserts `head_of`, and drops everything; the suffix does the same on fresh labels -/
+example :
+    let p : List Op := [.new 0 2 0, .new 1 1 1, .newrole 2 8 2 0, .set 6 2 1, .drop 2, .drop 1, .drop 0, .sweep]
+    let s : List Op := [.new 10 2 0, .new 11 1 1, .newrole 12 8 2 10, .set 6 12 11]
+    (specRun Quirks.asIs schema p).h.live = [] ∧ (specRun Quirks.asIs schema p).h.qvars = [] ∧
+    (run Quirks.asIs schema lifo (p ++ s)).relObs = (run Quirks.asIs schema lifo s).relObs ∧
+    ((run Quirks.asIs schema lifo s).relObs.map (·.1.length)) = some 5 := by
   decide
 
 end KrroodVerif.SG
